@@ -12,6 +12,11 @@
                       SampleRateSpec, ChannelAssignment: enums, `match` tables, discriminants) and the
                       ChannelAssignment writer of bitrepr.rs, parsed and mirrored arm by arm (part `headers`)
 
+  Gen/Writer.lean     the `impl BitRepr` bodies of src/component/bitrepr.rs (part `writer`)
+  Gen/Verify.lean     the `impl Verify` bodies of src/component/verify.rs, the helper macros they use (`macro_rules!`
+                      definitions of verify.rs and src/error.rs, expanded by a macro-by-example engine), `verify_macro_impl`,
+                      and the public constructors / setters of src/component/datatype.rs (part `verify`)
+
 It accepts a deliberately tiny Rust subset and FAILS CLOSED: any construct it does not recognise inside
 a translated item aborts with "translator cannot read <item>" (exit 1) — it never guesses.
 """
@@ -905,6 +910,8 @@ HDR_SPEC = [
 HDR_ENUMS = ["ChannelAssignment", "BlockSizeSpec", "SampleSizeSpec", "SampleRateSpec"]
 # lean name -> (param types, return type, has `_exact`) of every function emitted into Gen/Headers.lean (read by part `writer`)
 HDR_DONE = {}
+# (owner, fn) -> record of every function emitted into Gen/Writer.lean (read by part `verify`)
+WR_DONE = {}
 
 
 def hdr_lex(src, where):
@@ -4735,6 +4742,9 @@ class WrTx:
         return f"let {sub.st()} :=\n  ({ite})\n{rest(env_r)}"
 
     # ---------------------------------------------------------------- functions
+    def make_parser(self, toks, lo, hi):
+        return WrParser(toks, lo, hi, self.where)
+
     def translate_fn(self, fname, trait, owner, name):
         items = self.files[fname]
         table = items.fns if owner is None else items.impls.get((trait, owner))
@@ -4785,7 +4795,7 @@ class WrTx:
             self.err("no return type")
         rty = self.ty(rec["ret"])
         lo, hi = rec["body"]
-        ps = WrParser(items.toks, lo, hi, self.where)
+        ps = self.make_parser(items.toks, lo, hi)
         body = ps.block()
         if ps.p != hi:
             self.err("trailing tokens after the body")
@@ -4994,6 +5004,8 @@ def emit_writer():
     for owner, names in WR_SPEC:
         for name in names:
             body += tx.translate_fn("bitrepr.rs", "BitRepr", owner, name)
+    WR_DONE.clear()
+    WR_DONE.update(tx.fns)
     L = ["-- GENERATED by tools/translate.py (part `writer`) from src/component/bitrepr.rs and src/component/datatype.rs — do not edit",
          "/-",
          "Statement-by-statement mirror of `impl BitRepr for X { fn count_bits; fn write }`.",
@@ -5067,6 +5079,2524 @@ def emit_writer():
     return "\n".join(L)
 
 
+# ===================================================================================================
+# Part `verify`: the `impl Verify for X` bodies of src/component/verify.rs, the helper macros they use
+# (`verify_block_size!`, `verify_bps!`, `verify_sample_range!` of verify.rs; `verify_range!`, `verify_true!` and the
+# function `verify_macro_impl` of src/error.rs) and the public constructors of src/component/datatype.rs.
+#
+# Everything is PARSED from the current source text (lexer / item index / expression parser of parts `headers` and
+# `writer`, extended below) and mirrored statement by statement into Gen/Verify.lean:
+#   * `macro_rules!` definitions are read and EXPANDED by a small macro-by-example engine (matchers `literal`, `expr`,
+#     `tt`, `ident`, repetitions; first matching arm wins; `$x:expr` is substituted as one parenthesised group; names
+#     bound by `let` inside a transcriber are renamed per expansion = hygiene).  No meaning of any of the five macros
+#     is built into this translator: if a bound, an operator, the order of two checks or the text of a macro changes,
+#     the expansion changes.
+#   * a function returning `Result<(), VerifyError>` becomes a Lean function returning `VR = Option Bool`
+#     (`some true` = `Ok(())`, `some false` = `Err(_)`, `none` = the function PANICS in the dev profile before it
+#     returns: overflow of `+ - *`, unary minus of MIN, a shift amount >= the width, an index out of bounds, division
+#     by zero, `assert!`, `.expect()` on `None`).  `a?; rest` and `a.and_then(|()| rest)` are `andThen`, in program
+#     order; a loop is `forV` over the same list / range; error messages and `map_err` are dropped.
+#   * a constructor returning `Result<T, VerifyError>` becomes a function returning `CR T = Option (Option T)`
+#     (`none` = panic, `some none` = `Err`, `some (some v)` = `Ok(v)`), `v` a value of the hand-written model's
+#     structures (same accessor table WR_MODEL as part `writer`) or of the structures generated by part `writer`.
+# What is NOT read from the source is in the tables below (the trusted base of this part): VF_CTORS (the two
+# `from_parts` whose bodies are not plain struct literals), VF_PART (the model structure standing for a
+# `QuantizedParameters` value) and the readings of a few std / heapless functions (`heapless::Vec::from_slice`,
+# `Option::ok_or_else`, `Iterator::fold / enumerate / zip`, `to_owned`, `Vec::from`, `wrapping_add`, `expect`,
+# `format!`, `assert_eq!`), each marked "std:" where it is implemented.
+
+VF_SBITS = WR_SBITS
+
+# model structure that stands for a value of a "part" view type when it is a parameter / a result of its own
+VF_PART = {"QuantizedParameters": ("FlacVerif.QParams", ["coefs", "shift", "precision"])}
+
+# enums of datatype.rs without a counterpart in Gen/Headers.lean or Gen/Writer.lean: generated into Gen/Verify.lean
+VF_GENERATED = ["FrameOffset"]
+
+# `T::f(params)` that builds a component value and is not a plain struct literal: exact Rust body the reading was
+# written for (compared with datatype.rs), model fields as Lean templates over the PARAMETERS, panic condition
+# (`debug_assert!` / slice copies) as a Lean Bool template (None = cannot panic).
+VF_CTORS = {
+    ("Residual", "from_parts"): dict(
+        params=["partition_order", "block_size", "warmup_length", "rice_params", "quotients", "remainders"],
+        body="debug_assert!(rice_params.len() == 1usize << partition_order as usize); "
+             "let max_quotients: usize = find_max::<64>(&quotients) as usize; "
+             "let sum_quotients: usize = if max_quotients * block_size < u32::MAX as usize { "
+             "wrapping_sum::<u32, 32>(&quotients) as usize } else { quotients.iter().map(|x| *x as usize).sum() }; "
+             "let sum_rice_params: usize = rice_params.iter().map(|x| *x as usize).sum(); "
+             "Self { partition_order, block_size, warmup_length, rice_params, quotients, remainders, sum_quotients, "
+             "sum_rice_params, }",
+        fields={"order": "{partition_order}", "blockSize": "{block_size}", "warmup": "{warmup_length}",
+                "params": "{rice_params}", "quotients": "{quotients}", "remainders": "{remainders}"},
+        # `debug_assert!(rice_params.len() == 1usize << partition_order as usize)` (partition_order: u8)
+        ex="(decide ({partition_order} < 64) && decide ({rice_params}.length = (1 <<< {partition_order}) % 18446744073709551616))"),
+    ("QuantizedParameters", "from_parts"): dict(
+        params=["coefs", "order", "shift", "precision"],
+        body="debug_assert!(coefs.len() == order); let mut coefs_v = simd::i16x32::default(); "
+             "coefs_v[0..order].copy_from_slice(coefs); Self { coefs: coefs_v, order, shift, precision, }",
+        # the model keeps the first `order` lanes (accessor `coefs()`), and `order()` is their number
+        fields={"coefs": "{coefs}", "shift": "{shift}", "precision": "{precision}"},
+        # debug_assert, `coefs_v[0..order]` (32 lanes), `copy_from_slice` (equal lengths)
+        ex="(decide ({coefs}.length = {order}) && decide ({order} ≤ 32))"),
+}
+
+# probes: each helper macro of verify.rs is also emitted as a function of its (typed) expression arguments, by
+# expanding one synthetic invocation; a use whose arguments have these types and cannot panic is emitted as a call
+# of that function (beta-equivalent to the inline expansion), any other use is expanded inline.
+VF_PROBES = [
+    ("verify_block_size", [("size", "usize")]),
+    ("verify_bps", [("bps", "usize")]),
+    ("verify_sample_range", [("sample", "i32"), ("bps", "usize")]),
+]
+
+# (file, trait, owner, fn, kind)  kind: "V" Result<(), VerifyError>, "C" constructor, "M" `&mut self` mutator;
+# in emission order (callees first)
+VF_SPEC = [
+    ("error.rs", None, None, "verify_macro_impl", "V"),
+    ("verify.rs", "Verify", "Residual", "verify", "V"),
+    ("datatype.rs", None, "Residual", "new", "C"),
+    ("verify.rs", "Verify", "QuantizedParameters", "verify", "V"),
+    ("datatype.rs", None, "QuantizedParameters", "new", "C"),
+    ("verify.rs", "Verify", "Constant", "verify", "V"),
+    ("datatype.rs", None, "Constant", "new", "C"),
+    ("verify.rs", "Verify", "Verbatim", "verify", "V"),
+    ("datatype.rs", None, "Verbatim", "new", "C"),
+    ("verify.rs", "Verify", "FixedLpc", "verify", "V"),
+    ("datatype.rs", None, "FixedLpc", "new", "C"),
+    ("verify.rs", "Verify", "Lpc", "verify", "V"),
+    ("datatype.rs", None, "Lpc", "new", "C"),
+    ("verify.rs", "Verify", "ChannelAssignment", "verify", "V"),
+    ("verify.rs", "Verify", "FrameHeader", "verify", "V"),
+    ("datatype.rs", None, "FrameHeader", "set_frame_number", "M"),
+    ("datatype.rs", None, "FrameHeader", "set_start_sample_number", "M"),
+    ("datatype.rs", None, "FrameHeader", "set_frame_offset", "M"),
+    ("datatype.rs", None, "FrameHeader", "new", "C"),
+    ("verify.rs", "Verify", "StreamInfo", "verify", "V"),
+    ("datatype.rs", None, "StreamInfo", "new", "C"),
+    ("datatype.rs", None, "StreamInfo", "set_total_samples", "M"),
+    ("datatype.rs", None, "StreamInfo", "set_block_sizes", "MV"),
+    ("datatype.rs", None, "StreamInfo", "set_frame_sizes", "MV"),
+    ("verify.rs", "Verify", "MetadataBlockData", "verify", "V"),
+    ("datatype.rs", None, "MetadataBlockData", "new_unknown", "C"),
+    ("verify.rs", "Verify", "MetadataBlock", "verify", "V"),
+    ("verify.rs", "Verify", "SubFrame", "verify", "V"),
+    ("datatype.rs", None, "Frame", "new", "C"),
+    ("verify.rs", "Verify", "Frame", "verify", "V"),
+    ("datatype.rs", None, "Stream", "verify_variable_blocking_frames", "V"),
+    ("datatype.rs", None, "Stream", "verify_fixed_blocking_frames", "V"),
+    ("verify.rs", "Verify", "Stream", "verify", "V"),
+    ("datatype.rs", None, "Stream", "new", "C"),
+]
+# deliberately NOT translated (reason)
+VF_UNTRANSLATED = {
+    ("Constant / Verbatim / FixedLpc / Lpc / Frame / MetadataBlock / FrameHeader / Stream", "from_parts, from_samples, from_specs, from_stream_info, with_stream_info"):
+        "no function of their own: inlined where a translated constructor calls them (struct-literal bodies; `assert_eq!` becomes a panic condition)",
+    ("Residual / QuantizedParameters", "from_parts"):
+        "bodies use SIMD helpers / slice copies: read through the table VF_CTORS (body text compared with datatype.rs)",
+    ("StreamInfo", "update_frame_info, set_md5_digest"): "not constructors / verify impls (min/max folding, slice copy); outside this part",
+    ("Stream / Frame", "add_frame, add_metadata_block, add_subframe, precompute_bitstream, into_parts, into_stereo_channels, new_empty"):
+        "mutators and destructors outside this part",
+    ("impl Verify for the config structs", "(src/config.rs)"): "part `config`",
+}
+
+# the impls of `Verify` in verify.rs this part was written for
+VF_VERIFY_IMPLS = ["Stream", "MetadataBlock", "MetadataBlockData", "StreamInfo", "Frame", "ChannelAssignment", "FrameHeader",
+                   "SubFrame", "Constant", "Verbatim", "FixedLpc", "Lpc", "QuantizedParameters", "Residual"]
+
+
+# ---- macro-by-example engine
+
+class VfMacros:
+    FRAGS = ("literal", "expr", "tt", "ident")
+
+    def __init__(self):
+        self.defs = {}      # name -> (file, [(pattern, body, body let-bound names)])
+        self.counter = 0
+
+    def load(self, fname, toks):
+        for name, mt in wr_macro_defs(fname, toks).items():
+            if name == "seq":
+                continue
+            if name in self.defs:
+                fail(f"{fname}: macro `{name}!` is defined twice ({self.defs[name][0]}, {fname})")
+            self.defs[name] = (fname, self.parse_def(fname, name, mt))
+
+    # token trees
+    def trees(self, toks, where):
+        """flat token list -> list of trees: str | (open, [trees], close)"""
+        pairs = {"(": ")", "[": "]", "{": "}"}
+        out, stack = [], []
+        cur = out
+        for t in toks:
+            if t in pairs:
+                new = []
+                stack.append((cur, t, new))
+                cur = new
+            elif t in pairs.values():
+                if not stack or pairs[stack[-1][1]] != t:
+                    fail(f"{where}: unbalanced `{t}`")
+                parent, o, sub = stack.pop()
+                parent.append((o, sub, t))
+                cur = parent
+            else:
+                cur.append(t)
+        if stack:
+            fail(f"{where}: unbalanced brackets")
+        return out
+
+    def parse_def(self, fname, name, mt):
+        where = f"{fname}: macro_rules! {name}"
+        if mt[:3] != ["macro_rules", "!", name] or mt[3] != "{" or mt[-1] != "}":
+            fail(f"{where}: unexpected shape")
+        tr = self.trees(mt[4:-1], where)
+        rules = []
+        i = 0
+        while i < len(tr):
+            if not isinstance(tr[i], tuple) or i + 2 >= len(tr) + 0 and False:
+                fail(f"{where}: expected a matcher")
+            if i + 2 >= len(tr) or tr[i + 1] != "=>" or not isinstance(tr[i + 2], tuple):
+                fail(f"{where}: expected `(matcher) => {{ transcriber }}`")
+            pat = self.parse_matcher(tr[i][1], where)
+            body = self.parse_transcriber(tr[i + 2][1], where)
+            rules.append((pat, body, self.let_names(tr[i + 2][1])))
+            i += 3
+            if i < len(tr):
+                if tr[i] != ";":
+                    fail(f"{where}: expected `;` between rules")
+                i += 1
+        if not rules:
+            fail(f"{where}: no rules")
+        return rules
+
+    def let_names(self, trees):
+        """identifiers bound by `let` in the literal text of a transcriber (hygiene: renamed per expansion)"""
+        out = set()
+
+        def walk(ts):
+            for j, t in enumerate(ts):
+                if isinstance(t, tuple):
+                    walk(t[1])
+                elif t == "let":
+                    k = j + 1
+                    if k < len(ts) and ts[k] == "mut":
+                        k += 1
+                    if k < len(ts) and isinstance(ts[k], str) and re.fullmatch(r"[a-z_][a-z0-9_]*", ts[k]) and (k == 0 or ts[k - 1] != "$"):
+                        out.add(ts[k])
+        walk(trees)
+        return out
+
+    def parse_rep_tail(self, ts, i, where):
+        """after `$( .. )`: optional separator, then `*`, `+` or `?` -> (sep, op, next index)"""
+        if i < len(ts) and ts[i] in ("*", "+", "?"):
+            return None, ts[i], i + 1
+        if i + 1 < len(ts) and isinstance(ts[i], str) and ts[i + 1] in ("*", "+", "?"):
+            return ts[i], ts[i + 1], i + 2
+        fail(f"{where}: repetition without `*`, `+` or `?`")
+
+    def parse_matcher(self, ts, where):
+        out = []
+        i = 0
+        while i < len(ts):
+            t = ts[i]
+            if t == "$":
+                nx = ts[i + 1] if i + 1 < len(ts) else None
+                if isinstance(nx, tuple) and nx[0] == "(":
+                    sub = self.parse_matcher(nx[1], where)
+                    sep, op, i = self.parse_rep_tail(ts, i + 2, where)
+                    out.append(("rep", sub, sep, op))
+                    continue
+                if isinstance(nx, str) and i + 3 < len(ts) + 0 and ts[i + 2] == ":" and isinstance(ts[i + 3], str):
+                    frag = ts[i + 3]
+                    if frag not in self.FRAGS:
+                        fail(f"{where}: fragment specifier `{frag}` is not supported")
+                    out.append(("var", nx, frag))
+                    i += 4
+                    continue
+                fail(f"{where}: `$` in a matcher")
+            if isinstance(t, tuple):
+                out.append(("group", t[0], self.parse_matcher(t[1], where), t[2]))
+            else:
+                out.append(("tok", t))
+            i += 1
+        return out
+
+    def parse_transcriber(self, ts, where):
+        out = []
+        i = 0
+        while i < len(ts):
+            t = ts[i]
+            if t == "$":
+                nx = ts[i + 1] if i + 1 < len(ts) else None
+                if isinstance(nx, tuple) and nx[0] == "(":
+                    sub = self.parse_transcriber(nx[1], where)
+                    sep, op, i = self.parse_rep_tail(ts, i + 2, where)
+                    out.append(("rep", sub, sep, op))
+                    continue
+                if isinstance(nx, str) and re.fullmatch(r"[A-Za-z_][A-Za-z0-9_]*", nx):
+                    if nx == "crate":
+                        fail(f"{where}: `$crate`")
+                    out.append(("var", nx))
+                    i += 2
+                    continue
+                fail(f"{where}: `$` in a transcriber")
+            if isinstance(t, tuple):
+                out.append(("group", t[0], self.parse_transcriber(t[1], where), t[2]))
+            else:
+                out.append(("tok", t))
+            i += 1
+        return out
+
+    # matching against a flat token list
+    def group_end(self, toks, i, where):
+        pairs = {"(": ")", "[": "]", "{": "}"}
+        stack = []
+        while i < len(toks):
+            if toks[i] in pairs:
+                stack.append(pairs[toks[i]])
+            elif toks[i] in pairs.values():
+                if not stack or stack.pop() != toks[i]:
+                    fail(f"{where}: unbalanced bracket")
+                if not stack:
+                    return i + 1
+            i += 1
+        fail(f"{where}: unbalanced brackets")
+
+    def match_frag(self, frag, toks, p, end, where):
+        """-> index after the fragment, or None"""
+        if p >= end:
+            return None
+        t = toks[p]
+        if frag == "literal":
+            if t.startswith('"') or re.fullmatch(r"\d.*", t) or t in ("true", "false") or t.startswith("'") and t.endswith("'") and len(t) > 2:
+                return p + 1
+            if t == "-" and p + 1 < end and re.fullmatch(r"\d.*", toks[p + 1]):
+                return p + 2
+            return None
+        if frag == "ident":
+            return p + 1 if re.fullmatch(r"[A-Za-z_][A-Za-z0-9_]*", t) and t not in HDR_KEYWORDS else None
+        if frag == "tt":
+            if t in ("(", "[", "{"):
+                return self.group_end(toks, p, where)
+            if t in (")", "]", "}"):
+                return None
+            return p + 1
+        if frag == "expr":
+            if t in (")", "]", "}", ",", ";", "=>", "..", "..="):
+                return None     # not the start of an expression (`..hi` range expressions are not supported: never matched as expr)
+            ps = VfParser(toks, p, end, where, None)
+            ps.scan_only = True
+            ps.expr()
+            if ps.peek() in ("..", "..="):
+                fail(f"{where}: range expression as an `expr` fragment")
+            return ps.p
+        fail(f"{where}: fragment `{frag}`")
+
+    def match_seq(self, pats, toks, p, end, binds, where):
+        for pi, pt in enumerate(pats):
+            k = pt[0]
+            if k == "tok":
+                if p >= end or toks[p] != pt[1]:
+                    return None
+                p += 1
+            elif k == "var":
+                q = self.match_frag(pt[2], toks, p, end, where)
+                if q is None:
+                    return None
+                if pt[1] in binds:
+                    fail(f"{where}: metavariable `${pt[1]}` bound twice")
+                binds[pt[1]] = (pt[2], toks[p:q])
+                p = q
+            elif k == "group":
+                if p >= end or toks[p] != pt[1]:
+                    return None
+                q = self.group_end(toks, p, where)
+                if toks[q - 1] != pt[3]:
+                    return None
+                r = self.match_seq(pt[2], toks, p + 1, q - 1, binds, where)
+                if r is None or r != q - 1:
+                    return None
+                p = q
+            elif k == "rep":
+                sub, sep, op = pt[1], pt[2], pt[3]
+                names = self.rep_vars(sub)
+                its = []
+                after_sep = False
+                while True:
+                    b2 = {}
+                    q = self.match_seq(sub, toks, p, end, b2, where) if p < end else None
+                    if q is None or q == p:
+                        if after_sep:
+                            return None     # a separator must be followed by another repetition
+                        break
+                    its.append(b2)
+                    p = q
+                    after_sep = False
+                    if op == "?":
+                        break
+                    if sep is not None:
+                        if p < end and toks[p] == sep:
+                            p += 1
+                            after_sep = True
+                        else:
+                            break
+                if op == "+" and not its:
+                    return None
+                for n in names:
+                    binds[n] = ("rep", [b.get(n) for b in its])
+            else:
+                fail(f"{where}: matcher element {k}")
+        return p
+
+    def rep_vars(self, pats):
+        out = []
+        for pt in pats:
+            if pt[0] == "var":
+                out.append(pt[1])
+            elif pt[0] in ("group", "rep"):
+                out += self.rep_vars(pt[2] if pt[0] == "group" else pt[1])
+        return out
+
+    def transcribe(self, body, binds, rename, where):
+        out = []
+        for b in body:
+            k = b[0]
+            if k == "tok":
+                out.append(rename.get(b[1], b[1]))
+            elif k == "var":
+                if b[1] not in binds:
+                    fail(f"{where}: unbound metavariable `${b[1]}`")
+                frag, ts = binds[b[1]]
+                if frag == "rep":
+                    fail(f"{where}: `${b[1]}` used outside its repetition")
+                out += (["("] + ts + [")"]) if frag == "expr" else ts
+            elif k == "group":
+                out += [b[1]] + self.transcribe(b[2], binds, rename, where) + [b[3]]
+            elif k == "rep":
+                names = [n for n in self.body_vars(b[1]) if n in binds and binds[n][0] == "rep"]
+                if not names:
+                    fail(f"{where}: repetition without a repeated metavariable")
+                counts = {len(binds[n][1]) for n in names}
+                if len(counts) != 1:
+                    fail(f"{where}: metavariables of one repetition matched different numbers of times")
+                n_it = counts.pop()
+                for j in range(n_it):
+                    b2 = dict(binds)
+                    for n in names:
+                        b2[n] = binds[n][1][j]
+                    if j and b[2] is not None:
+                        out.append(b[2])
+                    out += self.transcribe(b[1], b2, rename, where)
+        return out
+
+    def body_vars(self, body):
+        out = []
+        for b in body:
+            if b[0] == "var":
+                out.append(b[1])
+            elif b[0] == "group":
+                out += self.body_vars(b[2])
+            elif b[0] == "rep":
+                out += self.body_vars(b[1])
+        return out
+
+    def expand(self, name, toks, where):
+        """one expansion step -> (token list, {metavariable: (fragment kind, tokens)})"""
+        fname, rules = self.defs[name]
+        for pat, body, lets in rules:
+            binds = {}
+            q = self.match_seq(pat, toks, 0, len(toks), binds, f"{where}: {name}!")
+            if q is not None and q == len(toks):
+                self.counter += 1
+                rename = {n: f"{n}_m{self.counter}" for n in lets}
+                return self.transcribe(body, binds, rename, f"{where}: {name}!"), binds
+        fail(f"{where}: no rule of `{name}!` matches `{' '.join(toks)}`")
+
+# ---- parser: WrParser + struct literals, signed literals / casts, tuple patterns in `for`, `|()|` closures,
+# `[x; n]`, and macro invocations (user macros are expanded and the expansion is parsed in place)
+
+class VfParser(WrParser):
+    def __init__(self, toks, lo, hi, where, macros):
+        WrParser.__init__(self, toks, lo, hi, where)
+        self.macros = macros
+        self.scan_only = False      # only find the extent of an expression (macro fragment matching): no expansion
+        self.struct_ok = True       # a `Path { .. }` here is a struct literal (not in `if` / `match` / `for` heads)
+        self.depth = 0
+
+    def sub(self, toks):
+        ps = VfParser(toks, 0, len(toks), self.where, self.macros)
+        ps.scan_only = self.scan_only
+        ps.depth = self.depth + 1
+        return ps
+
+    def block(self):
+        save, self.struct_ok = self.struct_ok, True
+        try:
+            return WrParser.block(self)
+        finally:
+            self.struct_ok = save
+
+    def args(self):
+        save, self.struct_ok = self.struct_ok, True
+        try:
+            return WrParser.args(self)
+        finally:
+            self.struct_ok = save
+
+    def head_expr(self):
+        save, self.struct_ok = self.struct_ok, False
+        try:
+            return self.expr()
+        finally:
+            self.struct_ok = save
+
+    def cast(self):
+        e = self.unary()
+        while self.peek() == "as":
+            self.p += 1
+            ty = self.peek()
+            if ty not in HDR_BITS and ty not in VF_SBITS:
+                self.err(f"cast to unsupported type {ty!r}")
+            self.p += 1
+            e = ("cast", e, ty)
+        return e
+
+    def if_(self):
+        self.eat("if")
+        if self.peek() == "let":
+            self.p += 1
+            pat = self.pattern()
+            if self.peek() == "|":
+                self.err("or-pattern in if-let")
+            self.eat("=")
+            scrut = self.head_expr()
+            then = self.block()
+            els = None
+            if self.peek() == "else":
+                self.p += 1
+                els = self.if_() if self.peek() == "if" else self.block()
+            return ("iflet", pat, scrut, then, els)
+        cond = self.head_expr()
+        then = self.block()
+        els = None
+        if self.peek() == "else":
+            self.p += 1
+            els = self.if_() if self.peek() == "if" else self.block()
+        return ("if", cond, then, els)
+
+    def match(self):
+        self.eat("match")
+        scrut = self.head_expr()
+        self.eat("{")
+        save, self.struct_ok = self.struct_ok, True
+        arms = []
+        while True:
+            self.skip_attrs()
+            if self.peek() == "}":
+                self.p += 1
+                break
+            if self.peek() == "|":
+                self.p += 1
+            alts = [self.pattern()]
+            while self.peek() == "|":
+                self.p += 1
+                alts.append(self.pattern())
+            guard = None
+            if self.peek() == "if":
+                self.p += 1
+                guard = self.expr()
+            self.eat("=>")
+            if self.peek() == "{":
+                body = self.block()
+                if self.peek() == ",":
+                    self.p += 1
+                elif self.peek() in (".", "?"):
+                    self.err("method call on a block arm")
+            else:
+                body = self.expr()
+                if self.peek() == ",":
+                    self.p += 1
+                elif self.peek() != "}":
+                    self.err(f"expected `,` or `}}` after match arm, found {self.peek()!r}")
+            arms.append((alts, guard, body))
+        self.struct_ok = save
+        if not arms:
+            self.err("match without arms")
+        return ("match", scrut, arms)
+
+    def pattern(self):
+        # `Variant(ref x)` / `Variant(ref mut x)` bind by reference: the same value for a pure reading
+        if self.is_ident(self.peek()) or self.peek() == "Self":
+            start = self.p
+            try:
+                segs = self.path()
+            except Unreadable:
+                self.p = start
+                return WrParser.pattern(self)
+            if self.peek() == "(" :
+                j = self.p + 1
+                d = 1
+                toks = list(self.t)
+                k = j
+                changed = False
+                while d > 0 and k < self.hi:
+                    if toks[k] == "(":
+                        d += 1
+                    elif toks[k] == ")":
+                        d -= 1
+                    k += 1
+                inner = toks[j:k - 1]
+                if "ref" in inner:
+                    new = []
+                    i2 = 0
+                    while i2 < len(inner):
+                        if inner[i2] == "ref":
+                            i2 += 1
+                            if i2 < len(inner) and inner[i2] == "mut":
+                                i2 += 1
+                            continue
+                        new.append(inner[i2])
+                        i2 += 1
+                    ps = VfParser(toks[start:j] + new + [")"], 0, (j - start) + len(new) + 1, self.where, self.macros)
+                    pat = WrParser.pattern(ps)
+                    self.p = k
+                    return pat
+            self.p = start
+        return WrParser.pattern(self)
+
+    def for_pat(self):
+        x = self.peek()
+        if x == "(":
+            self.p += 1
+            items = []
+            while self.peek() != ")":
+                items.append(self.for_pat())
+                if self.peek() == ",":
+                    self.p += 1
+                elif self.peek() != ")":
+                    self.err("tuple pattern of `for`")
+            self.p += 1
+            if len(items) < 2:
+                self.err("tuple pattern of `for`")
+            return ("tup", tuple(items))
+        if x == "&":
+            self.err("reference pattern of `for`")
+        if not (self.is_ident(x) or x == "_") or not re.fullmatch(r"[a-z_][a-z0-9_]*", x):
+            self.err(f"pattern of `for`: {x!r}")
+        self.p += 1
+        return x
+
+    def for_(self):
+        self.eat("for")
+        v = self.for_pat()
+        self.eat("in")
+        save, self.struct_ok = self.struct_ok, False
+        it = self.expr()
+        if self.peek() == "..":
+            self.p += 1
+            it = ("range", it, self.expr())
+        elif self.peek() == "..=":
+            self.err("inclusive range")
+        self.struct_ok = save
+        body = self.block()
+        return ("for", v, it, body)
+
+    def while_(self):
+        self.err("`while` loop")
+
+    def path(self):
+        """`A::<T>::f`: the generic arguments are kept in the segment (`A<T>`)"""
+        segs = [self.peek()]
+        self.p += 1
+        while self.peek() == "::":
+            self.p += 1
+            if self.peek() == "<":
+                g = self.generic_toks()
+                segs[-1] += "<" + "".join(g) + ">"
+                continue
+            if not self.is_ident(self.peek()):
+                self.err("path segment")
+            segs.append(self.peek())
+            self.p += 1
+        return segs
+
+    def closure_params(self):
+        ps = []
+        while self.peek() != "|":
+            if self.peek() == "(" and self.peek(1) == ")":
+                self.p += 2
+                ps.append(("()", None))
+            elif self.peek() == "_":
+                self.p += 1
+                ps.append(("_", None))
+            else:
+                if not self.is_ident(self.peek()):
+                    self.err("closure parameter")
+                nm = self.peek()
+                self.p += 1
+                ty = None
+                if self.peek() == ":":
+                    self.p += 1
+                    ty = self.type_until((",", "|"))
+                ps.append((nm, ty))
+            if self.peek() == ",":
+                self.p += 1
+            elif self.peek() != "|":
+                self.err("closure parameter list")
+        self.p += 1
+        return ps
+
+    def primary(self):
+        x = self.peek()
+        if x is None:
+            self.err("unexpected end of input")
+        if x == "|":
+            self.p += 1
+            ps = self.closure_params()
+            return ("closure", ps, self.expr())
+        if x == "(":
+            save, self.struct_ok = self.struct_ok, True
+            try:
+                return WrParser.primary(self)
+            finally:
+                self.struct_ok = save
+        if x == "[":
+            save, self.struct_ok = self.struct_ok, True
+            try:
+                self.p += 1
+                items = []
+                while self.peek() != "]":
+                    items.append(self.expr())
+                    if self.peek() == ",":
+                        self.p += 1
+                    elif self.peek() == ";" and len(items) == 1:
+                        self.p += 1
+                        n = self.expr()
+                        self.eat("]")
+                        return ("arrayrep", items[0], n)
+                    elif self.peek() != "]":
+                        self.err("array literal")
+                self.p += 1
+                return ("array", items)
+            finally:
+                self.struct_ok = save
+        if x == "vec" and self.peek(1) == "!" and self.peek(2) == "[" and self.peek(3) == "]":
+            self.p += 4     # std: vec![] is the empty vector
+            return ("array", [])
+        m = re.fullmatch(r"(0x[0-9A-Fa-f_]+|0b[01_]+|0o[0-7_]+|\d[\d_]*)(i8|i16|i32|i64|isize)", x)
+        if m:
+            self.p += 1
+            return ("int", int(m.group(1).replace("_", ""), 0), m.group(2))
+        if (x == "Self" or (self.is_ident(x) and x[0].isupper())) and self.peek(1) != "!":
+            start = self.p
+            segs = self.path()
+            if self.peek() == "{" and self.struct_ok and (segs[-1] == "Self" or segs[-1][0].isupper()):
+                return self.struct_lit(segs)
+            self.p = start
+        return WrParser.primary(self)
+
+    def struct_lit(self, segs):
+        self.eat("{")
+        save, self.struct_ok = self.struct_ok, True
+        fields = []
+        while self.peek() != "}":
+            self.skip_attrs()
+            if self.peek() == "..":
+                self.err("struct update syntax `..base`")
+            f = self.peek()
+            if not self.is_ident(f):
+                self.err(f"struct literal field {f!r}")
+            self.p += 1
+            if self.peek() == ":":
+                self.p += 1
+                e = self.expr()
+            else:
+                e = ("var", f)
+            if any(g == f for g, _ in fields):
+                self.err(f"struct literal: field `{f}` twice")
+            fields.append((f, e))
+            if self.peek() == ",":
+                self.p += 1
+            elif self.peek() != "}":
+                self.err("struct literal")
+        self.p += 1
+        self.struct_ok = save
+        return ("structlit", segs, fields)
+
+    def macro(self, name, toks):
+        if name in ("assert", "debug_assert"):
+            return WrParser.macro(self, name, toks)
+        if name in ("assert_eq", "debug_assert_eq"):
+            # std: assert_eq!(a, b [, msg..]) panics unless a == b
+            ps = self.sub(toks)
+            a = ps.expr()
+            ps.eat(",")
+            b = ps.expr()
+            if ps.peek() is not None and ps.peek() != ",":
+                ps.err(f"{name}! arguments")
+            return ("assert", ("bin", "==", a, b), name.startswith("debug"))
+        if name == "format":
+            # std: format!(literal [, args]) is a String; only the argument-free form (inline `{name}` captures are not
+            # evaluated here: a captured name is a plain local) is accepted
+            if not toks or not toks[0].startswith('"') or any(t != "," for t in toks[1:]):
+                self.err("format! with explicit arguments")
+            return ("format", toks[0])
+        if name in ("panic", "unreachable") and all(x.startswith('"') for x in toks):
+            return ("panic",)
+        if self.macros is not None and name in self.macros.defs:
+            if self.scan_only:
+                return ("macro", name, toks)
+            if self.depth > 24:
+                self.err(f"macro expansion of {name}! is too deep")
+            out, binds = self.macros.expand(name, toks, self.where)
+            ps = self.sub(out)
+            e = ps.expr()
+            if ps.peek() is not None:
+                ps.err(f"expansion of {name}! is not one expression")
+            return ("mexp", name, e, {k: v for k, v in binds.items()})
+        self.err(f"macro {name}!")
+
+# ---- translation
+
+class VfK:
+    """Result kind of the function / block being translated: "V" = Result<(), VerifyError> (Lean `VR`),
+    "C" = Result<T, VerifyError> (Lean `CR T`)."""
+
+    def __init__(self, kind, rty=None, state=None):
+        """state: Lean name(s) of the mutable state threaded through (`self` of a `&mut self` method returning a Result,
+        the `let mut` variables a loop body assigns): the outcome is then `Option (Bool × state)`"""
+        self.kind, self.rty, self.state = kind, rty, state
+        if state is not None:
+            self.err = f"(false, {state})"
+        else:
+            self.err = "false" if kind == "V" else "none"
+
+    def unit(self):
+        return f"some (true, {self.state})" if self.state is not None else "some true"
+
+    def state_names(self):
+        return [] if self.state is None else [x.strip() for x in self.state.strip("()").split(",")]
+
+
+def vf_req(c, rest):
+    if c is None or c == "true":
+        return rest
+    return f"req {wr_par(c)} <|\n{rest}"
+
+
+class VfTx(WrTx):
+    def __init__(self, files, gen_defs, hdr_done, hdr_enums, macros, cinfo, use_max):
+        WrTx.__init__(self, files, gen_defs, {}, hdr_done, use_max)
+        self.hdr_enums = hdr_enums      # enums of part `headers`: name -> [(variant, payload types, disc, explicit)]
+        self.macros = macros
+        self.corder, self.cdefs, self.cvalues = cinfo   # constant.rs (part `constants`)
+        self.aliases = {}               # file -> {local name -> full constant name}
+        self.cur_file = None
+        self.struct_defs = {}           # Rust struct name -> [(field, type toks)] (datatype.rs)
+        self.lines = []                 # Lean text of helper functions translated on demand
+        self.on_demand = []             # (owner, name) of helpers translated on demand (reported)
+        self.probes = {}                # macro name -> (param types, lean name)
+        self.used_readings = set()
+        self.need_inhabited = []        # Lean types that need `deriving instance Inhabited` (a `default` stands where Rust panics)
+        self.sink = None
+
+    # ------------------------------------------------------------ types
+    def ty(self, toks):
+        t = [x for x in toks if not x.startswith("'")]
+        while t and t[0] in ("&", "mut"):
+            t = t[1:]
+        s = "".join(t)
+        if s == "str":
+            return "str"
+        if s == "Result<(),VerifyError>":
+            return "vres"
+        m = re.fullmatch(r"Result<(.+),VerifyError>", s)
+        if m:
+            inner = hdr_lex(m.group(1), self.where)
+            return ("cres", self.ty(inner))
+        if s in VF_GENERATED:
+            return ("st", s)
+        if t[:3] == ["heapless", "::", "Vec"]:
+            return WrTx.ty(self, t)
+        return WrTx.ty(self, toks)
+
+    def lty(self, ty):
+        if ty == "vres":
+            return "VR"
+        if ty == "str":
+            self.err("a string value has no Lean counterpart")
+        if isinstance(ty, tuple) and ty[0] == "cres":
+            return "CR " + wr_par(self.lty_value(ty[1]))
+        if isinstance(ty, tuple) and ty[0] == "st":
+            n = ty[1]
+            if n in WR_GENERATED:
+                return f"FlacVerif.Gen.Writer.{n}"
+            if n in VF_GENERATED:
+                return n
+        return WrTx.lty(self, ty)
+
+    def lty_value(self, ty):
+        """Lean type of a component VALUE (a view type is its model structure / inductive)"""
+        if isinstance(ty, tuple) and ty[0] == "st" and ty[1] in WR_MODEL:
+            info = WR_MODEL[ty[1]]
+            if info["kind"] == "ctor":
+                return info["of"]
+            if info["kind"] == "part":
+                return VF_PART[ty[1]][0]
+        return self.lty(ty)
+
+    def default(self, ty):
+        """a value of the type, used where Rust panics (the exactness condition is false there)"""
+        if wr_is_u(ty) or wr_is_s(ty):
+            return "0"
+        if isinstance(ty, tuple) and ty[0] == "st":
+            self.inhabited(ty)
+            return "default"
+        self.err(f"no default value for {ty!r}")
+
+    def inhabited(self, ty):
+        T = ty[1]
+        if T in WR_MODEL and WR_MODEL[T]["kind"] == "struct":
+            lt = WR_MODEL[T]["lean"]
+        elif T in self.gen and self.gen[T][0] == "struct" and T in WR_GENERATED:
+            for f, fty in self.gen[T][1]:
+                if isinstance(fty, tuple) and fty[0] == "st":
+                    self.inhabited(fty)
+            lt = self.lty(ty)
+        else:
+            self.err(f"no default value for {T}")
+        if lt not in self.need_inhabited:
+            self.need_inhabited.append(lt)
+
+    def is_view(self, ty):
+        return isinstance(ty, tuple) and ty[0] == "st" and ty[1] in WR_MODEL and WR_MODEL[ty[1]]["kind"] in ("ctor", "part")
+
+    def view_fields(self, T):
+        info = WR_MODEL[T]
+        return [f for f, _ in info["fields"]] if info["kind"] == "ctor" else list(info["fields"])
+
+    def value_of(self, v):
+        """Lean text of the model VALUE of a component value (views are packed into their constructor / structure)"""
+        if self.is_view(v.ty):
+            T = v.ty[1]
+            info = WR_MODEL[T]
+            args = " ".join(wr_par(v.view[f]) for f in self.view_fields(T))
+            if info["kind"] == "ctor":
+                return f"({info['of']}.{info['ctor']} {args})"
+            return f"({VF_PART[T][0]}.mk {args})"
+        if v.lean is None:
+            self.err("component value without a Lean term")
+        return v.lean
+
+    def param_value(self, name, ty):
+        """-> (Lean binders, WrVar) of a parameter `name` of Rust type ty"""
+        ln = wr_mangle(name)
+        if self.is_view(ty):
+            T = ty[1]
+            info = WR_MODEL[T]
+            if info["kind"] == "part":
+                return [f"({ln} : {VF_PART[T][0]})"], WrVar(None, ty, None, {f: f"{ln}.{f}" for f in info["fields"]})
+            self.err(f"parameter of type {T} (a constructor view)")
+        return [f"({ln} : {self.lty(ty)})"], WrVar(ln, ty)
+
+    def self_value(self, owner):
+        if owner in WR_MODEL and WR_MODEL[owner]["kind"] == "part":
+            info = WR_MODEL[owner]
+            return [f"(self : {VF_PART[owner][0]})"], WV(None, ("st", owner), view={f: f"self.{f}" for f in info["fields"]})
+        if owner in self.hdr_enums:
+            return [f"(self : FlacVerif.Gen.Headers.{owner})"], WV("self", ("hdr", owner))
+        if owner in self.gen and owner in WR_GENERATED:
+            return [f"(self : FlacVerif.Gen.Writer.{owner})"], WV("self", ("st", owner))
+        return WrTx.self_value(self, owner)
+
+    def call_args(self, v):
+        if self.is_view(v.ty) and WR_MODEL[v.ty[1]]["kind"] == "part":
+            return self.value_of(v)
+        return WrTx.call_args(self, v)
+
+    # ------------------------------------------------------------ constants of constant.rs
+    def load_aliases(self, fname):
+        t = self.files[fname].toks
+        out = {}
+        i = 0
+        while i < len(t):
+            if t[i] == "use" and t[i + 1:i + 4] == ["crate", "::", "constant"]:
+                j = i + 4
+                segs = []
+                while t[j] == "::":
+                    if t[j + 1] == "{":
+                        segs = None     # `use crate::constant::{..}`: not understood; names stay unknown (fail closed on use)
+                        break
+                    segs.append(t[j + 1])
+                    j += 2
+                if segs:
+                    local = segs[-1]
+                    if t[j] == "as":
+                        local = t[j + 1]
+                        j += 2
+                    if t[j] == ";":
+                        out[local] = ".".join(segs)
+            i += 1
+        self.aliases[fname] = out
+
+    def constant(self, full):
+        if full not in self.cdefs or self.cvalues.get(full) is None or isinstance(self.cvalues[full], tuple):
+            self.err(f"`{full.replace('.', '::')}` is not an integer constant of constant.rs")
+        ty = self.cdefs[full][0]
+        v = self.cvalues[full]
+        lean = "FlacVerif.Gen.Const." + full.replace(".", "_")
+        if wr_is_s(ty) and v >= 0:
+            lean = f"(({lean} : Nat) : Int)"     # Gen/Constants.lean declares non-negative constants as Nat
+        # lit stays None: the VALUE is never used by the translator, only the name
+        return WV(lean, ty)
+
+    # ------------------------------------------------------------ struct literals, constructor functions
+    def field_map(self, T):
+        """Rust field -> model field (or "@Part"), derived from the accessor table: accessors whose body is
+        `self.f`, `&self.f` or `self.f as <int>` and whose template is one model field."""
+        info = WR_MODEL[T]
+        out = {}
+        for m, (body, tmpl) in info["acc"].items():
+            bt = hdr_lex(body, "WR_MODEL")
+            if bt and bt[0] == "&":
+                bt = bt[1:]
+            if len(bt) == 5 and bt[3] == "as" and (bt[4] in HDR_BITS or bt[4] in VF_SBITS):
+                bt = bt[:3]
+            if not (len(bt) == 3 and bt[0] == "self" and bt[1] == "."):
+                continue
+            if tmpl.startswith("@"):
+                tgt = tmpl
+            else:
+                fm = re.fullmatch(r"\{self\}\.(\w+)", tmpl) if info["kind"] == "struct" else re.fullmatch(r"\{(\w+)\}", tmpl)
+                if not fm:
+                    continue
+                tgt = fm.group(1)
+            # the table entry must be the current accessor
+            dt, rec = self.dt_fn(T, m)
+            lo, hi = rec["body"]
+            if dt.toks[lo + 1:hi - 1] != hdr_lex(body, "WR_MODEL"):
+                self.err(f"datatype.rs: body of the accessor {T}::{m} is `{wr_body_text(dt, rec)}`, the accessor table "
+                         f"was written for `{body}`")
+            if bt[2] in out and out[bt[2]] != tgt:
+                self.err(f"{T}: field `{bt[2]}` is mapped to two model fields")
+            out[bt[2]] = tgt
+        return out
+
+    def model_field(self, T, f):
+        """Rust field f of the model struct T -> (model field, Rust type of f)"""
+        if T not in self.struct_defs:
+            self.err(f"datatype.rs: struct {T} not found")
+        decl = dict(self.struct_defs[T])
+        if f not in decl:
+            self.err(f"{T} has no field `{f}`")
+        fmap = self.field_map(T)
+        if f not in fmap or fmap[f].startswith("@"):
+            self.err(f"{T}: the Rust field `{f}` has no model field in the accessor table")
+        save = self.owner
+        self.owner = T
+        try:
+            fty = self.ty(decl[f])
+        finally:
+            self.owner = save
+        return fmap[f], fty
+
+    def struct_value(self, T, fields, env):
+        """`T { f: e, .. }` -> WV; fields = [(rust field, expr AST)]"""
+        if T in self.gen and self.gen[T][0] == "struct":
+            decl = self.gen[T][1]
+            names = [f for f, _ in decl]
+            if sorted(f for f, _ in fields) != sorted(names):
+                self.err(f"struct literal of {T}: fields {[f for f, _ in fields]}, the struct has {names}")
+            parts, exs = [], []
+            for f, e in fields:
+                fty = dict(decl)[f]
+                v = self.tx_as(e, env, fty, f"{T}.{f}")
+                if fty == "bool":
+                    val = {"True": "true", "False": "false"}.get(v.lean, f"decide {wr_par(v.lean)}")
+                else:
+                    val = self.value_of(v) if isinstance(fty, tuple) and fty[0] == 'st' else v.lean
+                parts.append(f"{wr_mangle(f)} := {val}")
+                exs.append(v.ex)
+            return WV("({ " + ", ".join(parts) + " } : " + self.lty(("st", T)) + ")", ("st", T), wr_and(*exs))
+        if T not in WR_MODEL or WR_MODEL[T]["kind"] not in ("struct", "ctor"):
+            self.err(f"struct literal of {T}")
+        if T not in self.struct_defs:
+            self.err(f"datatype.rs: struct {T} not found")
+        decl = self.struct_defs[T]
+        names = [f for f, _ in decl]
+        if sorted(f for f, _ in fields) != sorted(names):
+            self.err(f"struct literal of {T}: fields {sorted(f for f, _ in fields)}, the struct has {sorted(names)}")
+        fmap = self.field_map(T)
+        info = WR_MODEL[T]
+        save = self.owner
+        vals, exs = {}, []
+        for f, e in fields:
+            if f not in fmap:
+                self.err(f"{T}: the Rust field `{f}` has no model field in the accessor table")
+            self.owner = T
+            fty = self.ty(dict(decl)[f])
+            self.owner = save
+            v = self.tx_as(e, env, fty, f"{T}.{f}")
+            exs.append(v.ex)
+            tgt = fmap[f]
+            if tgt.startswith("@"):
+                P = tgt[1:]
+                if v.ty != ("st", P) or v.view is None:
+                    self.err(f"{T}.{f}: expected a {P} value")
+                for g in WR_MODEL[P]["fields"]:
+                    vals[g] = v.view[g]
+            else:
+                vals[tgt] = self.value_of(v) if isinstance(v.ty, tuple) and v.ty[0] == "st" else v.lean
+        if info["kind"] == "ctor":
+            want = [f for f, _ in info["fields"]]
+            if sorted(vals) != sorted(want):
+                self.err(f"struct literal of {T}: model fields {sorted(vals)}, the constructor has {sorted(want)}")
+            return WV(None, ("st", T), wr_and(*exs), view=vals)
+        lean = "({ " + ", ".join(f"{k} := {v}" for k, v in vals.items()) + " } : " + info["lean"] + ")"
+        return WV(lean, ("st", T), wr_and(*exs))
+
+    def tx_as(self, e, env, ty, what):
+        """translate e where a value of Rust type ty is expected"""
+        v = self.tx(e, env, ty)
+        if v.ty is None and v.lit is not None and not isinstance(v.lit, tuple) and (wr_is_u(ty) or wr_is_s(ty)):
+            self.fits(v.lit, ty, what)
+            return WV(v.lean, ty, v.ex, v.lit)
+        if v.ty == ("opt", None) and isinstance(ty, tuple) and ty[0] == "opt":
+            return WV(v.lean, ty, v.ex)
+        if v.ty == ("list", None) and isinstance(ty, tuple) and ty[0] == "list":
+            for x in (v.lit or []):
+                if not isinstance(x, int):
+                    self.err(f"{what}: array literal")
+                self.fits(x, ty[1], what)
+            return WV(v.lean, ty, v.ex)
+        if v.ty != ty:
+            self.err(f"{what}: value of type {v.ty!r}, expected {ty!r}")
+        return v
+
+    def ctor_call(self, T, fn, args, env):
+        """`T::fn(args)` building a component value: inlined (struct literal body) or read from VF_CTORS"""
+        dt, rec = self.dt_fn(T, fn)
+        save_owner, save_where = self.owner, self.where
+        self.owner = T
+        try:
+            ret = self.ty(rec["ret"])
+            if ret != ("st", T):
+                self.err(f"{T}::{fn} does not return Self")
+            pnames, ptys = [], []
+            for p in rec["params"]:
+                if len(p) < 3 or p[1] != ":" or p[0] in ("self", "mut"):
+                    self.err(f"{T}::{fn}: parameter `{' '.join(p)}`")
+                pnames.append(p[0])
+                ptys.append(self.ty(p[2:]))
+        finally:
+            self.owner = save_owner
+        if len(args) != len(pnames):
+            self.err(f"{T}::{fn}: arity")
+        vals = [self.tx_as(a, env, pt, f"{T}::{fn}") for a, pt in zip(args, ptys)]
+        exs = [v.ex for v in vals]
+        if (T, fn) in VF_CTORS:
+            ent = VF_CTORS[(T, fn)]
+            lo, hi = rec["body"]
+            if dt.toks[lo + 1:hi - 1] != hdr_lex(ent["body"], "VF_CTORS") or pnames != ent["params"]:
+                self.err(f"datatype.rs: `{T}::{fn}` changed: the table VF_CTORS was written for another body / parameter list "
+                         f"(now `{wr_body_text(dt, rec)}`)")
+            sub = {n: wr_par(self.value_of(v) if isinstance(v.ty, tuple) and v.ty[0] == "st" else v.lean) for n, v in zip(pnames, vals)}
+            fields = {k: t.format(**sub) for k, t in ent["fields"].items()}
+            ex = wr_and(*exs, ent["ex"].format(**sub) if ent["ex"] else None)
+            info = WR_MODEL[T]
+            if info["kind"] == "struct":
+                return WV("({ " + ", ".join(f"{k} := {v}" for k, v in fields.items()) + " } : " + info["lean"] + ")", ("st", T), ex)
+            return WV(None, ("st", T), ex, view=fields)
+        # inline: parameters are bound to the (pure) argument values; assertions become panic conditions
+        ps = VfParser(dt.toks, rec["body"][0], rec["body"][1], f"datatype.rs: fn {T}.{fn}", self.macros)
+        body = ps.block()
+        env2 = {}
+        for n, v in zip(pnames, vals):
+            env2[n] = WrVar(v.lean, v.ty, v.lit if not isinstance(v.lit, tuple) else None, v.view)
+        self.owner, self.where = T, f"datatype.rs: fn {T}.{fn} (inlined)"
+        try:
+            for st in body[1]:
+                if st[0] != "assert":
+                    self.err(f"statement of kind `{st[0]}` in a constructor function that is inlined")
+                c = self.tx(st[1], env2)
+                if c.ty != "bool":
+                    self.err("assertion on a non-boolean")
+                exs += [c.ex, f"decide {wr_par(c.lean)}"]
+            if body[2] is None or body[2][0] != "structlit" or body[2][1] not in (["Self"], [T]):
+                self.err("the body is not a struct literal of Self")
+            v = self.struct_value(T, body[2][2], env2)
+        finally:
+            self.owner, self.where = save_owner, save_where
+        return WV(v.lean, v.ty, wr_and(*exs, v.ex), None, v.view)
+
+    # ------------------------------------------------------------ expressions
+    def tx(self, e, env, want=None):
+        k = e[0]
+        if k == "var":
+            name = e[1]
+            if name not in env and name != "self" and name in self.aliases.get(self.cur_file, {}):
+                return self.constant(self.aliases[self.cur_file][name])
+            if name == "None" and name not in env:
+                return WV("none", ("opt", None))
+            return WrTx.tx(self, e, env, want)
+        if k == "path":
+            segs = e[1]
+            if segs[:2] == ["crate", "constant"] and len(segs) >= 3:
+                return self.constant(".".join(segs[2:]))
+            if len(segs) == 2 and (segs[0] in HDR_BITS or segs[0] in VF_SBITS) and segs[1] in ("MAX", "MIN"):
+                T = segs[0]
+                w = wr_bits(T)
+                v = (2 ** w - 1 if segs[1] == "MAX" else 0) if T in HDR_BITS else (2 ** (w - 1) - 1 if segs[1] == "MAX" else -2 ** (w - 1))
+                return WV(str(v) if v >= 0 else f"({v})", T, None, v)
+            if len(segs) == 2 and (segs[0] in self.hdr_enums or (segs[0] == "Self" and self.owner in self.hdr_enums)):
+                en = self.owner if segs[0] == "Self" else segs[0]
+                for v, payload, _, _ in self.hdr_enums[en]:
+                    if v == segs[1]:
+                        if payload:
+                            self.err(f"`{en}::{v}` used as a value")
+                        return WV(f"FlacVerif.Gen.Headers.{en}.{v}", ("hdr", en))
+                self.err(f"`{'::'.join(segs)}`: no such variant")
+            return WrTx.tx(self, e, env, want)
+        if k == "field":
+            r = self.tx(e[1], env)
+            if isinstance(r.ty, tuple) and r.ty[0] == "st" and r.ty[1] in WR_MODEL and WR_MODEL[r.ty[1]]["kind"] == "struct":
+                T = r.ty[1]
+                lf, fty = self.model_field(T, e[2])
+                return WV(f"{r.lean}.{lf}", fty, r.ex)
+            return WrTx.tx(self, e, env, want)
+        if k == "str":
+            return WV('""', "str")
+        if k == "format":
+            return WV('""', "str")
+        if k == "structlit":
+            segs = e[1]
+            if segs == ["Self"]:
+                T = self.owner
+                return self.struct_value(T, e[2], env)
+            if len(segs) == 1:
+                return self.struct_value(segs[0], e[2], env)
+            if len(segs) == 2:
+                T = self.owner if segs[0] == "Self" else segs[0]
+                return self.variant_value(T, segs[1], e[2], env)
+            self.err(f"struct literal `{'::'.join(segs)}`")
+        if k == "arrayrep":
+            x = self.tx(e[1], env, want[1] if isinstance(want, tuple) and want[0] == "list" else None)
+            n = self.tx(e[2], env, "usize")
+            if n.lit is None or isinstance(n.lit, tuple):
+                self.err("array repeat expression whose length is not a literal")
+            ety = x.ty if x.ty is not None else (want[1] if isinstance(want, tuple) and want[0] == "list" else None)
+            if x.ty is None:
+                if x.lit is None or ety is None:
+                    self.err("array repeat expression: element of unknown type")
+                self.fits(x.lit, ety, "array element")
+            return WV(f"(List.replicate {n.lean} {wr_par(x.lean)})", ("list", ety), wr_and(x.ex, n.ex))
+        if k == "panic":
+            return WV("default", "any", "false")
+        if k == "iflet":
+            pat, scrut, then, els = e[1], e[2], e[3], e[4]
+            if els is None:
+                self.err("`if let` without `else` used as a value")
+            head, rows = self.any_arms(scrut, [([pat], None, then), ([("wild",)], None, els)], env)
+            vals = [self.tx(b, env2, want) for _, env2, b in rows]
+            tys = [v.ty for v in vals if v.ty != "any"]
+            if not tys or any(x != tys[0] for x in tys):
+                self.err("`if let` branches of different types")
+            for v in vals:
+                if v.ty == "any":
+                    v.lean = self.default(tys[0])
+            lean = "(" + head + "\n".join(f"  | {p} => {wr_ind(v.lean if not self.is_view(v.ty) else self.value_of(v), 4).lstrip()}" for (p, _, _), v in zip(rows, vals)) + ")"
+            if self.is_view(tys[0]):
+                self.err("`if let` whose value is a constructor view")
+            ex = None
+            if any(v.ex is not None for v in vals):
+                ex = "(" + head + "\n".join(f"  | {p} => {wr_ind(v.ex or 'true', 4).lstrip()}" for (p, _, _), v in zip(rows, vals)) + ")"
+            return WV(lean, tys[0], ex)
+        if k == "index":
+            r = self.tx(e[1], env)
+            if isinstance(r.ty, tuple) and r.ty[0] == "list" and isinstance(r.ty[1], tuple) and r.ty[1][0] == "st":
+                i = self.tx_as(e[2], env, "usize", "index")
+                if self.is_view(r.ty[1]):
+                    self.err("indexing a list of constructor views")
+                return WV(f"({r.lean}.getD {wr_par(i.lean)} {self.default(r.ty[1])})", r.ty[1],
+                          wr_and(r.ex, i.ex, f"decide ({i.lean} < {r.lean}.length)"))
+            return WrTx.tx(self, e, env, want)
+        if k == "mexp":
+            self.err(f"`{e[1]}!` used as a plain value")
+        if k == "closure":
+            self.err("closure in an unsupported position")
+        return WrTx.tx(self, e, env, want)
+
+    def variant_value(self, T, v, fields, env):
+        if T not in self.gen or self.gen[T][0] != "enum":
+            self.err(f"struct literal of `{T}::{v}`")
+        for vn, vk, decl in self.gen[T][1]:
+            if vn == v:
+                if vk != "struct":
+                    self.err(f"`{T}::{v}` is not a struct-like variant")
+                if sorted(f for f, _ in fields) != sorted(f for f, _ in decl):
+                    self.err(f"struct literal of {T}::{v}: fields")
+                given = dict(fields)
+                vals = [self.tx_as(given[f], env, fty, f"{T}::{v}.{f}") for f, fty in decl]
+                return WV(f"({self.lty(('st', T))}.{v} " + " ".join(wr_par(x.lean) for x in vals) + ")", ("st", T),
+                          wr_and(*[x.ex for x in vals]))
+        self.err(f"{T} has no variant {v}")
+
+    def tx_cast(self, e, env):
+        T = e[2]
+        if T in HDR_BITS:
+            return WrTx.tx_cast(self, e, env)
+        inner = self.tx(e[1], env)
+        w = VF_SBITS[T]
+        if inner.ty is None:
+            if inner.lit is None:
+                self.err("cast of an expression of unknown integer type")
+            self.fits(inner.lit, T, "cast")
+            return WV(inner.lean, T, inner.ex, inner.lit)
+        if wr_is_u(inner.ty):
+            # `as` to a signed type: reinterpretation modulo 2^w, never a panic
+            return WV(f"(Int.bmod (({inner.lean} : Nat) : Int) {2 ** w})", T, inner.ex)
+        if wr_is_s(inner.ty):
+            if VF_SBITS[inner.ty] <= w:
+                return WV(inner.lean, T, inner.ex, inner.lit)
+            return WV(f"(Int.bmod {inner.lean} {2 ** w})", T, inner.ex)
+        self.err(f"cast from {inner.ty!r} to {T}")
+
+    def tx_bin(self, e, env, want):
+        op = e[1]
+        if op in ("==", "!="):
+            try:
+                l = self.tx(e[2], env)
+                r = self.tx(e[3], env)
+            except Unreadable:
+                l = r = None
+            if l is not None and isinstance(l.ty, tuple) and l.ty[0] == "hdr" and l.ty == r.ty:
+                return WV(f"({l.lean} {'=' if op == '==' else '≠'} {r.lean})", "bool", wr_and(l.ex, r.ex))
+        return WrTx.tx_bin(self, e, env, want)
+
+    def tx_call(self, e, env, want):
+        callee, args = e[1], e[2]
+        if callee[0] == "path":
+            segs = callee[1]
+            if len(segs) == 2 and segs[0] in VF_SBITS and segs[1] == "from" and len(args) == 1:
+                a = self.tx(args[0], env)
+                T = segs[0]
+                if wr_is_s(a.ty) and VF_SBITS[a.ty] <= VF_SBITS[T]:
+                    return WV(a.lean, T, a.ex, a.lit)
+                if wr_is_u(a.ty) and HDR_BITS[a.ty] < VF_SBITS[T]:
+                    return WV(f"(({a.lean} : Nat) : Int)", T, a.ex, a.lit)
+                self.err(f"{T}::from of {a.ty!r}")
+            if segs == ["Vec", "from"] and len(args) == 1:
+                a = self.tx(args[0], env, want)      # std: Vec::from(slice) copies the slice
+                if not (isinstance(a.ty, tuple) and a.ty[0] == "list"):
+                    self.err("Vec::from of something that is not a slice")
+                self.used_readings.add("Vec::from")
+                return a
+            if len(segs) == 2:
+                T = self.owner if segs[0] == "Self" else segs[0]
+                if T in self.hdr_enums:
+                    ln = f"{T}.{segs[1]}"
+                    if ln in self.hdr and self.hdr[ln][1] != "writes":
+                        ptys, rty, has_ex = self.hdr[ln]
+                        # a variant constructor is not in the table; an associated function without `self` has all
+                        # its parameters listed
+                        dt = self.files["datatype.rs"]
+                        rec = dt.impls.get((None, T), {}).get(segs[1])
+                        if rec is not None and not any(p in (["self"], ["&", "self"]) for p in rec["params"]):
+                            outs = self.typed_args(args, ptys, env, ln)
+                            al = " ".join(wr_par(x.lean) for x in outs)
+                            rt = self.norm_hdr_ty(rty)
+                            return WV(f"(FlacVerif.Gen.Headers.{ln} {al})", rt,
+                                      wr_and(*[x.ex for x in outs], f"FlacVerif.Gen.Headers.{ln}_exact {al}" if has_ex else None))
+                    for v, payload, _, _ in self.hdr_enums[T]:
+                        if v == segs[1] and payload:
+                            outs = self.typed_args(args, list(payload), env, f"{T}::{v}")
+                            return WV(f"(FlacVerif.Gen.Headers.{T}.{v} " + " ".join(wr_par(x.lean) for x in outs) + ")", ("hdr", T),
+                                      wr_and(*[x.ex for x in outs]))
+                    self.err(f"call of `{'::'.join(segs)}`")
+                if T in self.gen and self.gen[T][0] == "enum" and any(vn == segs[1] and vk == "tuple" for vn, vk, _ in self.gen[T][1]):
+                    decl = [d for vn, vk, d in self.gen[T][1] if vn == segs[1]][0]
+                    if len(args) != len(decl):
+                        self.err(f"{T}::{segs[1]}: arity")
+                    vals = [self.tx_as(a, env, fty, f"{T}::{segs[1]}") for a, (_, fty) in zip(args, decl)]
+                    return WV(f"({self.lty(('st', T))}.{segs[1]} " + " ".join(wr_par(self.value_of(x) if isinstance(x.ty, tuple) and x.ty[0] == 'st' else x.lean) for x in vals) + ")",
+                              ("st", T), wr_and(*[x.ex for x in vals]))
+                if (T in WR_MODEL or T in self.gen) and (T, segs[1]) not in self.fns:
+                    dt = self.files["datatype.rs"]
+                    rec = dt.impls.get((None, T), {}).get(segs[1])
+                    if rec is not None and "".join(rec["ret"]) in ("Self", T) and not any(p[:1] == ["self"] or p[:2] == ["&", "self"] for p in rec["params"]):
+                        return self.ctor_call(T, segs[1], args, env)
+        return WrTx.tx_call(self, e, env, want)
+
+    def tx_mcall(self, e, env, want):
+        recv, name, args = e[1], e[2], e[3]
+        gen = e[4] if len(e) > 4 else None
+        if name == "fold" and len(args) == 2 and gen is None and args[1][0] == "closure" and len(args[1][1]) == 2:
+            # std: Iterator::fold(init, |acc, x| body) over a slice iterator
+            xs = self.tx(recv, env)
+            if not (isinstance(xs.ty, tuple) and xs.ty[0] == "list"):
+                self.err(".fold on something that is not a slice iterator")
+            init = self.tx(args[0], env, want)
+            ity = init.ty if init.ty is not None else want
+            if not (wr_is_u(ity) or wr_is_s(ity)):
+                self.err(".fold: accumulator of unknown type")
+            (an, aty), (xn, xty) = args[1][1]
+            if aty is not None or xty is not None or an in ("()", "_") or xn in ("()", "_"):
+                self.err(".fold: closure parameters")
+            env2 = dict(env)
+            env2[an] = WrVar(wr_mangle(an), ity)
+            env2[xn] = WrVar(wr_mangle(xn), xs.ty[1])
+            b = self.tx(args[1][2], env2, ity)
+            if b.ty != ity:
+                self.err(f".fold: closure returns {b.ty!r}, accumulator is {ity!r}")
+            f = f"(fun {wr_mangle(an)} {wr_mangle(xn)} => {b.lean})"
+            ex = None
+            if b.ex is not None:
+                ex = f"foldOk {f} (fun {wr_mangle(an)} {wr_mangle(xn)} => {b.ex}) {wr_par(init.lean)} {wr_par(xs.lean)}"
+            self.used_readings.add("Iterator::fold")
+            return WV(f"(List.foldl {f} {wr_par(init.lean)} {wr_par(xs.lean)})", ity, wr_and(xs.ex, init.ex, ex))
+        if recv[0] == "var" and recv[1] in env and env[recv[1]] is not None and env[recv[1]].ty == ("sink", "MemSink<u8>"):
+            sv = env[recv[1]]
+            if name == "into_inner" and not args and gen is None:
+                if sv.view["ops"] is None:
+                    return WV("[]", ("list", "u8"))
+                # crate: MemSink::<u8>::into_inner() = the bytes the sink holds: not given a meaning here (a parameter)
+                self.extra.setdefault("MemSink_u8_into_inner", "List FlacVerif.Op → List Nat")
+                return WV(f"(MemSink_u8_into_inner {sv.view['ops']})", ("list", "u8"))
+            self.err(f"`.{name}(..)` on a local sink")
+        if name == "wrapping_add" and len(args) == 1 and gen is None:
+            r = self.tx(recv, env, want)
+            if not wr_is_u(r.ty):
+                self.err(".wrapping_add on a value that is not an unsigned integer")
+            a = self.tx_as(args[0], env, r.ty, "wrapping_add")
+            self.used_readings.add("wrapping_add")
+            return WV(f"(({r.lean} + {a.lean}) % {2 ** HDR_BITS[r.ty]})", r.ty, wr_and(r.ex, a.ex))
+        r = None
+        try:
+            r = self.tx(recv, env)
+        except Unreadable:
+            r = None
+        if r is not None and gen is None:
+            if isinstance(r.ty, tuple) and r.ty[0] == "list":
+                if name == "to_owned" and not args:
+                    self.used_readings.add("to_owned")
+                    return r
+                if name == "is_empty" and not args:
+                    return WV(f"({wr_par(r.lean)}.length = 0)", "bool", r.ex)
+            if isinstance(r.ty, tuple) and r.ty[0] == "opt" and name == "expect" and len(args) == 1:
+                m = self.tx(args[0], env)
+                if m.ty != "str":
+                    self.err(".expect with a non-string message")
+                self.used_readings.add("Option::expect")
+                return WV(f"(Option.getD {wr_par(r.lean)} {self.default(r.ty[1])})", r.ty[1],
+                          wr_and(r.ex, f"Option.isSome {wr_par(r.lean)}"))
+            if isinstance(r.ty, tuple) and r.ty[0] == "hdr":
+                v = self.hdr_method(r, name, args, env)
+                if v is not None:
+                    return v
+            if isinstance(r.ty, tuple) and r.ty[0] == "st":
+                T = r.ty[1]
+                if (T, name) in self.fns and self.fns[(T, name)]["ret"] in ("vres", "mut"):
+                    self.err(f"`{T}::{name}` is not a plain value")
+                if (T, name) not in self.fns and T in self.gen and not self.trivial_accessor(T, name):
+                    self.helper(T, name)
+        return WrTx.tx_mcall(self, e, env, want)
+
+    def trivial_accessor(self, T, m):
+        dt = self.files["datatype.rs"]
+        rec = dt.impls.get((None, T), {}).get(m)
+        if rec is None or rec["body"] is None:
+            return True     # let the generic path report it
+        lo, hi = rec["body"]
+        b = dt.toks[lo + 1:hi - 1]
+        if b and b[0] == "&":
+            b = b[1:]
+        if len(b) == 7 and b[3:] == [".", "as_ref", "(", ")"]:
+            b = b[:3]
+        return len(b) == 3 and b[0] == "self" and b[1] == "."
+
+    def helper(self, T, name):
+        """translate a pure method of a generated type on demand (emitted before its first user)"""
+        save = (self.where, self.owner, self.extra, self.sink, self.cur_file)
+        self.cur_file = "datatype.rs"
+        try:
+            L = WrTx.translate_fn(self, "datatype.rs", None, T, name)
+        finally:
+            self.where, self.owner, self.extra, self.sink, self.cur_file = save
+        if self.fns[(T, name)]["extra"]:
+            self.err(f"{T}::{name}: uninterpreted callees in a helper")
+        self.lines += L
+        self.on_demand.append((T, name))
+
+
+    # ------------------------------------------------------------ Result-valued expressions and statements
+    def harmless_closure(self, c, what):
+        """closures that only build / relabel the error value: `|e| e.within(..)..`, `|_| VerifyError::new(..)`,
+        `|()| VerifyError::new(..)`, `|| VerifyError::new(..)`"""
+        if c[0] != "closure" or len(c[1]) > 1:
+            self.err(f"{what}: not a closure of at most one parameter")
+        pn = c[1][0][0] if c[1] and isinstance(c[1][0], tuple) else (c[1][0] if c[1] else None)
+        b = c[2]
+        while b[0] == "paren" or (b[0] == "block" and not b[1] and b[2] is not None):
+            b = b[1] if b[0] == "paren" else b[2]
+
+        def strarg(a):
+            while a[0] == "paren" or (a[0] == "un" and a[1] == "&"):
+                a = a[1] if a[0] == "paren" else a[2]
+            return a[0] in ("str", "format")
+        if b[0] == "call" and b[1] == ("path", ["VerifyError", "new"]) and len(b[2]) == 2 and all(strarg(a) for a in b[2]):
+            return
+        while b[0] == "mcall" and b[2] == "within" and len(b[3]) == 1 and strarg(b[3][0]):
+            b = b[1]
+        if pn is not None and b == ("var", pn) and b != c[2]:
+            return
+        self.err(f"{what}: the closure does more than building a VerifyError")
+
+    def is_vres_call(self, e):
+        return True
+
+    def vres(self, e, env):
+        """expression of type Result<(), VerifyError> -> Lean text of type VR"""
+        k = e[0]
+        if k == "paren":
+            return self.vres(e[1], env)
+        if k == "call" and e[1] == ("var", "Ok") and e[2] == [("unit",)]:
+            return "some true"
+        if k == "call" and e[1] == ("var", "Err") and len(e[2]) == 1:
+            return "some false"
+        if k == "mexp":
+            p = self.probe_call(e, env)
+            return p if p is not None else self.vres(e[2], env)
+        if k == "block":
+            return self.vwalk(e[1], 0, e[2], dict(env), VfK("V"))
+        if k == "mcall":
+            recv, name, args = e[1], e[2], e[3]
+            if name == "map_err" and len(args) == 1:
+                if args[0][0] == "closure":
+                    self.harmless_closure(args[0], ".map_err")
+                elif args[0][0] != "path":
+                    self.err(".map_err argument")
+                return self.vres(recv, env)
+            if name == "and_then" and len(args) == 1:
+                c = args[0]
+                if not (c[0] == "closure" and len(c[1]) == 1 and c[1][0][0] == "()"):
+                    self.err(".and_then: expected a closure `|()| ..`")
+                a = self.vres(recv, env)
+                b = self.vres(c[2], env)
+                return f"andThen false {wr_par(a)} <|\n{b}"
+            if True:
+                r = self.tx(recv, env)
+                if isinstance(r.ty, tuple) and r.ty[0] in ("st", "hdr"):
+                    T = r.ty[1]
+                    if (T, name) in self.fns and self.fns[(T, name)]["ret"] == "vres":
+                        f = self.fns[(T, name)]
+                        outs = self.typed_args(args, f["ptys"], env, f"{T}::{name}")
+                        al = [self.call_args(r) if r.ty[0] == "st" else wr_par(r.lean)] + [wr_par(x.lean) for x in outs]
+                        return vf_req(wr_and(r.ex, *[x.ex for x in outs]), self.vcall((T, name), al))
+                    self.err(f"`{T}::{name}` is not a translated function returning Result<(), VerifyError>")
+                self.err(f"method `.{name}(..)` on {r.ty!r} where a Result<(), VerifyError> is expected")
+        if k == "call":
+            callee, args = e[1], e[2]
+            key = None
+            if callee[0] == "var" and (None, callee[1]) in self.fns:
+                key = (None, callee[1])
+            elif callee[0] == "path":
+                segs = callee[1]
+                if segs[0] == "crate" and (None, segs[-1]) in self.fns and self.fns[(None, segs[-1])].get("path") == segs:
+                    key = (None, segs[-1])
+                elif len(segs) == 2:
+                    o = self.owner if segs[0] == "Self" else segs[0]
+                    if (o, segs[1]) in self.fns:
+                        key = (o, segs[1])
+            if key is not None and self.fns[key]["ret"] == "vres" and self.fns[key]["self_kind"] is None:
+                f = self.fns[key]
+                outs = self.str_args(args, f["ptys"], env, f["lean"])
+                al = [wr_par(self.as_bool(x) if x.ty == "bool" else x.lean) for x in outs if x.ty != "str"]
+                return vf_req(wr_and(*[x.ex for x in outs]), self.vcall(key, al))
+            self.err("call of a function that is not a translated Result<(), VerifyError> function")
+        if k == "if":
+            c = self.tx(e[1], env)
+            if c.ty != "bool":
+                self.err("`if` condition is not a boolean")
+            if e[3] is None:
+                self.err("`if` without `else` as a Result value")
+            a = self.vres(e[2], env)
+            b = self.vres(e[3], env)
+            return vf_req(c.ex, f"if {c.lean} then\n{wr_ind(wr_par(a))}\nelse\n{wr_ind(wr_par(b))}")
+        if k == "match":
+            rows = self.any_arms(e[1], e[2], env)
+            return rows[0] + "\n".join(f"| {p} =>\n{wr_ind(self.vres(b, env2) if b[0] != 'block' else self.vwalk(b[1], 0, b[2], dict(env2), VfK('V')), 4)}"
+                                       for p, env2, b in rows[1])
+        self.err(f"expression of kind `{k}` where a Result<(), VerifyError> is expected")
+
+    def vcall(self, key, args):
+        """Lean text of a call of a translated function (its uninterpreted parameters are passed on)"""
+        f = self.fns[key]
+        for x, ty_ in f["extra_types"]:
+            self.extra.setdefault(x, ty_)
+        return " ".join([f["lean"]] + list(f["extra"]) + args)
+
+    def str_args(self, args, ptys, env, what):
+        if len(args) != len(ptys):
+            self.err(f"{what}: arity")
+        outs = []
+        for a, pt in zip(args, ptys):
+            if pt == "str":
+                v = self.tx(a, env)
+                if v.ty != "str":
+                    self.err(f"{what}: a string is expected")
+                outs.append(v)
+            elif pt == "bool":
+                v = self.tx(a, env)
+                if v.ty != "bool":
+                    self.err(f"{what}: a boolean is expected")
+                outs.append(v)
+            else:
+                outs.append(self.tx_as(a, env, pt, what))
+        return outs
+
+    def probe_call(self, e, env):
+        """a use of a helper macro whose arguments have the probe's types and cannot panic -> call of the probe"""
+        name, binds = e[1], e[3]
+        if name not in self.probes:
+            return None
+        ptys, lname, pnames = self.probes[name]
+        exprs = [(n, b) for n, b in binds.items() if b[0] == "expr"]
+        if [n for n, _ in exprs] != pnames or any(b[0] not in ("expr", "literal") for b in binds.values()):
+            return None
+        outs = []
+        for (n, b), pt in zip(exprs, ptys):
+            ps = VfParser(b[1], 0, len(b[1]), self.where, self.macros)
+            a = ps.expr()
+            if ps.peek() is not None:
+                return None
+            try:
+                v = self.tx(a, env, pt)
+            except Unreadable:
+                return None
+            if v.ty is None and v.lit is not None:
+                return None
+            if v.ty != pt or v.ex is not None:
+                return None
+            outs.append(v)
+        return f"{lname} " + " ".join(wr_par(v.lean) for v in outs)
+
+    def any_arms(self, scrut, arms, env):
+        """match on a component enum (model / generated) or on an enum of part `headers`
+        -> (`match x with\n`, [(lean pattern, env, body)])"""
+        s = scrut
+        while s[0] == "paren" or (s[0] == "un" and s[1] in ("*", "&")):
+            s = s[1] if s[0] == "paren" else s[2]
+        sv = self.tx(s, env)
+        if isinstance(sv.ty, tuple) and sv.ty[0] == "hdr":
+            if sv.ex is not None:
+                self.err("match scrutinee that may panic")
+            en = sv.ty[1]
+            variants = {v: payload for v, payload, _, _ in self.hdr_enums[en]}
+            out, seen, total = [], set(), False
+            for alts, guard, body in arms:
+                if guard is not None:
+                    self.err("guard in a match on an enum")
+                if total:
+                    self.err("match arm after a wildcard arm")
+                pats, binds = [], None
+                for a in alts:
+                    if a[0] == "wild":
+                        pats.append("_")
+                        b = {}
+                        total = True
+                    elif a[0] == "variant" and len(a[1]) == 2 and (a[1][0] == en or (a[1][0] == "Self" and self.owner == en)) and a[1][1] in variants:
+                        v = a[1][1]
+                        if v in seen:
+                            self.err(f"variant {v} matched twice")
+                        seen.add(v)
+                        payload = variants[v]
+                        if len(a[2]) != len(payload):
+                            self.err(f"pattern {en}::{v}: arity")
+                        b = {}
+                        parts = []
+                        for sp, pt in zip(a[2], payload):
+                            if sp[0] == "wild":
+                                parts.append("_")
+                            else:
+                                b[sp[1]] = pt
+                                parts.append(wr_mangle(sp[1]))
+                        pats.append((f".{v} " + " ".join(parts)).strip())
+                    else:
+                        self.err(f"pattern in a match on {en}")
+                    if binds is not None and binds != b:
+                        self.err("or-pattern alternatives bind different names")
+                    binds = b
+                env2 = dict(env)
+                for n, t in binds.items():
+                    env2[n] = WrVar(wr_mangle(n), t)
+                out.append((" | ".join(pats), env2, body))
+            if not total and seen != set(variants):
+                self.err(f"match on {en} does not cover {sorted(set(variants) - seen)}")
+            return f"match {sv.lean} with\n", out
+        if s[0] != "var":
+            if sv.ex is not None or sv.lean is None:
+                self.err("match scrutinee that may panic")
+            env = dict(env)
+            env["scrutinee__"] = WrVar(sv.lean, sv.ty, None, sv.view)
+            scrut = ("var", "scrutinee__")
+        sv2, rows = self.enum_arms(scrut, arms, env)
+        if sv2.ex is not None:
+            self.err("match scrutinee that may panic")
+        return f"match {sv2.lean} with\n", [(p.strip(), env2, b) for p, env2, b in rows]
+
+    def cexpr(self, e, env, following, want=None):
+        """expression of type Result<T, E> / Option<T> turned into Result by `.map_err` / `.ok_or_else`, as it stands
+        before a `?` -> (Lean text of type CR T, WV describing the bound value of type T)"""
+        k = e[0]
+        if k == "paren":
+            return self.cexpr(e[1], env, following, want)
+        if k == "mcall" and e[2] == "map_err" and len(e[3]) == 1:
+            if e[3][0][0] == "closure":
+                self.harmless_closure(e[3][0], ".map_err")
+            elif e[3][0][0] != "path":
+                self.err(".map_err argument")
+            return self.cexpr(e[1], env, following, want)
+        if k == "mcall" and e[2] == "try_into" and not e[3]:
+            # std: <unsigned>::try_from(v): Err iff v does not fit the target type (the type of the place assigned)
+            v = self.tx(e[1], env)
+            if not (wr_is_u(v.ty) and wr_is_u(want)):
+                self.err(f".try_into() from {v.ty!r} into {want!r}")
+            self.used_readings.add("TryFrom between unsigned integers")
+            return vf_req(v.ex, f"tryIntoC {HDR_BITS[want]} {wr_par(v.lean)}"), want
+        if k == "mcall" and e[2] == "ok_or_else" and len(e[3]) == 1:
+            # std: Option::ok_or_else(f): Some(v) -> Ok(v), None -> Err(f())
+            self.harmless_closure(e[3][0], ".ok_or_else")
+            o = self.tx(e[1], env)
+            if not (isinstance(o.ty, tuple) and o.ty[0] == "opt"):
+                self.err(".ok_or_else on something that is not an Option")
+            self.used_readings.add("Option::ok_or_else")
+            return vf_req(o.ex, f"some {wr_par(o.lean)}"), o.ty[1]
+        if k == "call" and e[1] == ("path", ["heapless", "Vec", "from_slice"]) and len(e[2]) == 1:
+            # std: heapless::Vec::<T, N>::from_slice(s): Err(()) if s.len() > N, else Ok(copy of s); N is the
+            # capacity in the type of the parameter the result is passed to
+            xs = self.tx(e[2][0], env)
+            if not (isinstance(xs.ty, tuple) and xs.ty[0] == "list"):
+                self.err("heapless::Vec::from_slice of something that is not a slice")
+            cap = self.capacity(following, env)
+            self.used_readings.add("heapless::Vec::from_slice")
+            return vf_req(wr_and(xs.ex, cap.ex), f"fromSlice {wr_par(cap.lean)} {wr_par(xs.lean)}"), xs.ty
+        if k == "call" and e[1][0] == "path" and len(e[1][1]) == 2:
+            segs = e[1][1]
+            o = self.owner if segs[0] == "Self" else segs[0]
+            if (o, segs[1]) in self.fns and isinstance(self.fns[(o, segs[1])]["ret"], tuple) and self.fns[(o, segs[1])]["ret"][0] == "cres":
+                f = self.fns[(o, segs[1])]
+                outs = self.typed_args(e[2], f["ptys"], env, f["lean"])
+                al = [wr_par(self.value_of(x) if isinstance(x.ty, tuple) and x.ty[0] == "st" else x.lean) for x in outs]
+                return vf_req(wr_and(*[x.ex for x in outs]), self.vcall((o, segs[1]), al)), f["ret"][1]
+        self.err(f"`?` on an expression of kind `{k}` that is not understood")
+
+    def capacity(self, following, env):
+        """the `let` being translated binds a heapless::Vec; find `T::f(.., <name>, ..)` among the following statements
+        and read the capacity from the type of that parameter"""
+        name, nodes = following
+        found = []
+
+        def walk(n):
+            if isinstance(n, tuple):
+                if n[:1] == ("call",) and n[1][0] == "path" and len(n[1][1]) == 2:
+                    for i, a in enumerate(n[2]):
+                        if a == ("var", name):
+                            found.append((n[1][1], i))
+                for x in n:
+                    walk(x)
+            elif isinstance(n, list):
+                for x in n:
+                    walk(x)
+        walk(nodes)
+        caps = []
+        for segs, i in found:
+            T = self.owner if segs[0] == "Self" else segs[0]
+            dt = self.files["datatype.rs"]
+            rec = dt.impls.get((None, T), {}).get(segs[1])
+            if rec is None or i >= len(rec["params"]):
+                continue
+            p = rec["params"][i]
+            t = p[2:]
+            if t[:4] == ["heapless", "::", "Vec", "<"] and t[-1] == ">":
+                parts = wr_split_top(t[4:-1])
+                if len(parts) == 2:
+                    caps.append(tuple(parts[1]))
+        if len(set(caps)) != 1:
+            self.err(f"cannot determine the capacity of the heapless::Vec bound to `{name}`")
+        ct = list(caps[0])
+        ps = VfParser(ct, 0, len(ct), self.where, self.macros)
+        ce = ps.expr()
+        if ps.peek() is not None:
+            self.err("capacity expression")
+        c = self.tx(ce, env, "usize")
+        if c.ty not in ("usize", None):
+            self.err("capacity of a type other than usize")
+        return c
+
+    def infer_use_type(self, name, nodes, env):
+        """integer type of a `let` whose initialiser does not determine it: the type of the other operand of the
+        first comparison / arithmetic operation that uses the variable"""
+        res = []
+
+        def strip(x):
+            while isinstance(x, tuple) and x and x[0] == "paren":
+                x = x[1]
+            return x
+
+        def walk(n):
+            if res:
+                return
+            if isinstance(n, tuple):
+                if n[:1] == ("bin",) and n[1] not in ("&&", "||", "<<", ">>"):
+                    for a, b in ((n[2], n[3]), (n[3], n[2])):
+                        if strip(a) == ("var", name):
+                            try:
+                                v = self.tx(b, env)
+                            except Unreadable:
+                                continue
+                            if wr_is_u(v.ty) or wr_is_s(v.ty):
+                                res.append(v.ty)
+                                return
+                for x in n:
+                    walk(x)
+            elif isinstance(n, list):
+                for x in n:
+                    walk(x)
+        walk(nodes)
+        return res[0] if res else None
+
+    def vwalk(self, stmts, i, tail, env, K):
+        if i == len(stmts):
+            return self.vfinish(tail, env, K)
+        st = stmts[i]
+        k = st[0]
+
+        def rest(env2=env):
+            return self.vwalk(stmts, i + 1, tail, env2, K)
+
+        following = [stmts[i + 1:], tail]
+        if k == "let":
+            pat, tytoks, init = st[1], st[2], st[3]
+            if pat[0] != "bind":
+                self.err("tuple pattern in `let`")
+            name, mut = pat[1], pat[2]
+            want = self.ty(tytoks) if tytoks is not None else None
+            if init[0] == "try":
+                lean, vty = self.cexpr(init[1], env, (name, following))
+                if want is not None and want != vty:
+                    self.err(f"`let` declares {want!r}, initialiser has type {vty!r}")
+                env2 = dict(env)
+                env2[name] = WrVar(wr_mangle(name), vty, None, None, mut)
+                return f"bindC {K.err} {wr_par(lean)} fun {wr_mangle(name)} =>\n{rest(env2)}"
+            if init[0] == "call" and init[1][0] == "path" and init[1][1] in (["MemSink<u8>", "with_capacity"], ["MemSink<u8>", "new"]):
+                # crate: a fresh `MemSink<u8>` (src/bitsink.rs); what it holds is a function of the operations it receives
+                exs = []
+                if init[1][1][1] == "with_capacity":
+                    if len(init[2]) != 1:
+                        self.err("MemSink::with_capacity arity")
+                    exs.append(self.tx_as(init[2][0], env, "usize", "with_capacity").ex)    # capacity only; still evaluated
+                elif init[2]:
+                    self.err("MemSink::new arity")
+                env2 = dict(env)
+                env2[name] = WrVar(None, ("sink", "MemSink<u8>"), None, {"ops": None}, mut)
+                self.used_readings.add("MemSink<u8> (fresh local sink: never fails; content = function of the operations received)")
+                return vf_req(wr_and(*exs), rest(env2))
+            if init[0] == "mcall" and init[2] == "collect" and not init[3]:
+                # std: Iterator::collect into the declared Vec
+                src = self.tx(init[1], env)
+                if not (isinstance(src.ty, tuple) and src.ty[0] == "list") or (want is not None and want != src.ty):
+                    self.err(".collect() of something that is not an iterator of the declared element type")
+                self.used_readings.add("Iterator::collect")
+                v = src
+            else:
+                try:
+                    v = self.tx(init, env, want)
+                except Unreadable as ex:
+                    t = None
+                    if want is None and ("cannot infer the integer type" in str(ex) or "unknown type" in str(ex) or "untyped" in str(ex)):
+                        t = self.infer_use_type(name, following, env)
+                    if t is None:
+                        raise
+                    v = self.tx(init, env, t)
+                    if v.ty is None:
+                        v.ty = t
+            if want is not None:
+                if v.ty is None and v.lit is not None and not isinstance(v.lit, tuple):
+                    self.fits(v.lit, want, "let")
+                    v.ty = want
+                elif v.ty != want:
+                    self.err(f"`let` declares {want!r}, initialiser has type {v.ty!r}")
+            env2 = dict(env)
+            if v.lean is None:      # a component view: an alias
+                env2[name] = WrVar(None, v.ty, None, v.view, mut)
+                return vf_req(v.ex, rest(env2))
+            if v.ty == "str":
+                self.err("`let` of a string")
+            env2[name] = WrVar(wr_mangle(name), v.ty, v.lit if not isinstance(v.lit, tuple) else None, None, mut)
+            val = f"decide {wr_par(v.lean)}" if v.ty == "bool" else v.lean
+            r = rest(env2)
+            body = f"let {wr_mangle(name)} :=\n{wr_ind(val)}\n{r}" if "\n" in val else f"let {wr_mangle(name)} := {val}\n{r}"
+            return vf_req(v.ex, body)
+        if k == "assert":
+            c = self.tx(st[1], env)
+            if c.ty != "bool":
+                self.err("assertion on a non-boolean")
+            return vf_req(wr_and(c.ex, f"decide {wr_par(c.lean)}"), rest())
+        if k == "try":
+            x = st[1]
+            w = self.sink_write(x, env)
+            if w is not None:
+                sname, lean, ex = w
+                env2 = dict(env)
+                opsn = wr_mangle(sname) + "_ops"
+                env2[sname] = WrVar(None, ("sink", "MemSink<u8>"), None, {"ops": opsn}, True)
+                return vf_req(ex, f"bindOps {K.err} {wr_par(lean)} fun {opsn} =>\n{rest(env2)}")
+            return self.vseq(K, self.vres(x, env), rest())
+        if k == "for":
+            text, carried = self.vfor(st, env)
+            if carried is None:
+                return self.vseq(K, text, rest())
+            M, state = carried
+            env2 = dict(env)
+            for n in M:
+                env2[n] = WrVar(wr_mangle(n), env[n].ty, None, None, True)
+            return f"bindVS {K.err} {wr_par(text)} fun {state} =>\n{rest(env2)}"
+        if k == "if" and self.early_err(st) is not None:
+            c = self.tx(self.early_err(st), env)
+            if c.ty != "bool":
+                self.err("early-return condition")
+            return vf_req(c.ex, f"if {c.lean} then some {K.err} else\n{rest()}")
+        if k == "if":
+            if st[3] is not None:
+                self.err("`if .. else ..` as a statement")
+            c = self.tx(st[1], env)
+            if c.ty != "bool":
+                self.err("`if` condition is not a boolean")
+            a = self.vwalk(self.unit_block(st[2]), 0, None, dict(env), VfK("V"))
+            return self.vseq(K, vf_req(c.ex, f"if {c.lean} then\n{wr_ind(wr_par(a))}\nelse some true"), rest())
+        if k == "iflet":
+            pat, scrut, then, els = st[1], st[2], st[3], st[4]
+            if els is not None:
+                self.err("`if let .. else ..` as a statement")
+            then = ("block", self.unit_block(then), None)
+            sv = self.tx(scrut, env)
+            if isinstance(sv.ty, tuple) and sv.ty[0] == "opt":
+                if not (pat[0] == "variant" and pat[1] == ["Some"] and len(pat[2]) == 1 and pat[2][0][0] == "bind"):
+                    self.err("if-let pattern other than `Some(x)`")
+                nm = pat[2][0][1]
+                env2 = dict(env)
+                env2[nm] = WrVar(wr_mangle(nm), sv.ty[1])
+                a = self.vwalk(then[1], 0, None, env2, VfK("V"))
+                m = f"match {sv.lean} with\n| some {wr_mangle(nm)} =>\n{wr_ind(a, 4)}\n| none => some true"
+                return self.vseq(K, vf_req(sv.ex, m), rest())
+            head, rows = self.any_arms(scrut, [([pat], None, then), ([("wild",)], None, ("block", [], None))], env)
+            m = head + "\n".join(f"| {p} =>\n{wr_ind(self.vwalk(b[1], 0, None, dict(env2), VfK('V')), 4)}" for p, env2, b in rows)
+            return self.vseq(K, m, rest())
+        if k == "assign" and st[1] == "=" and st[2][0] == "field" and st[2][1] == ("var", "self") and K.state == "self":
+            # `self.f = e;` / `self.f = e?;` in a `&mut self` method: the new `self` is visible to everything after it,
+            # also when a later check fails
+            f = st[2][2]
+            T = self.owner
+            if T in WR_MODEL and WR_MODEL[T]["kind"] == "struct":
+                lf, fty = self.model_field(T, f)
+            else:
+                lf, fty = wr_mangle(f), self.field_ty(T, f)
+            if st[3][0] == "try":
+                lean, vty = self.cexpr(st[3][1], env, (None, following), fty)
+                if vty != fty:
+                    self.err(f"assignment of a {vty!r} to `self.{f}` of type {fty!r}")
+                return f"bindC {K.err} {wr_par(lean)} fun v_ =>\nlet self := {{ self with {lf} := v_ }}\n{rest()}"
+            v = self.tx_as(st[3], env, fty, f"self.{f}")
+            val = f"decide {wr_par(v.lean)}" if fty == "bool" else v.lean
+            return vf_req(v.ex, f"let self := {{ self with {lf} := {val} }}\n{rest()}")
+        if k == "assign" and st[2][0] == "var" and K.state is not None and wr_mangle(st[2][1]) in K.state_names():
+            name = st[2][1]
+            cur = env.get(name)
+            if cur is None or not cur.mut:
+                self.err(f"assignment to `{name}`, which is not a `let mut` local")
+            rhs = st[3] if st[1] == "=" else ("bin", st[1][:-1], ("var", name), st[3])
+            v = self.tx_as(rhs, env, cur.ty, f"`{name}`") if cur.ty is not None else self.tx(rhs, env)
+            env2 = dict(env)
+            env2[name] = WrVar(wr_mangle(name), v.ty, None, None, True)
+            return vf_req(v.ex, f"let {wr_mangle(name)} := {v.lean}\n{rest(env2)}")
+        if k == "mcall" and st[1][0] == "var" and st[1][1] in env and env[st[1][1]] is not None:
+            tv = env[st[1][1]]
+            if isinstance(tv.ty, tuple) and tv.ty[0] == "st" and (tv.ty[1], st[2]) in self.fns and self.fns[(tv.ty[1], st[2])]["ret"] == "mut":
+                if not tv.mut or tv.lean is None:
+                    self.err(f"`{st[1][1]}.{st[2]}(..)`: the receiver is not a `let mut` local")
+                f = self.fns[(tv.ty[1], st[2])]
+                outs = self.typed_args(st[3], f["ptys"], env, f["lean"])
+                al = [tv.lean] + [wr_par(x.lean) for x in outs]
+                env2 = dict(env)
+                env2[st[1][1]] = WrVar(tv.lean, tv.ty, None, None, True)
+                return vf_req(wr_and(*[x.ex for x in outs]), f"let {tv.lean} := {self.vcall((tv.ty[1], st[2]), al)}\n{rest(env2)}")
+        self.err(f"statement of kind `{k}`" + (f" (.{st[2]})" if k == "mcall" else ""))
+
+    def sink_write(self, x, env):
+        """`<component>.write(&mut <fresh local sink>).map_err(|_| VerifyError::new(..))` -> (sink name, W term, exactness)"""
+        while x[0] == "paren":
+            x = x[1]
+        if not (x[0] == "mcall" and x[2] == "map_err" and len(x[3]) == 1 and x[1][0] == "mcall" and x[1][2] == "write" and len(x[1][3]) == 1):
+            return None
+        a = x[1][3][0]
+        while a[0] == "paren" or (a[0] == "un" and a[1] == "&"):
+            a = a[1] if a[0] == "paren" else a[2]
+        if a[0] != "var" or a[1] not in env or env[a[1]] is None or env[a[1]].ty != ("sink", "MemSink<u8>"):
+            return None
+        sv = env[a[1]]
+        if sv.view["ops"] is not None or not sv.mut:
+            self.err(f"`{a[1]}` is written a second time (only one write into a fresh local sink is understood)")
+        self.harmless_closure(x[3][0], ".map_err")
+        r = self.tx(x[1][1], env)
+        if not (isinstance(r.ty, tuple) and r.ty[0] == "st" and (r.ty[1], "write") in self.fns and self.fns[(r.ty[1], "write")]["ret"] == "writes"):
+            self.err("`.write(..)` of something that has no translated writer")
+        f = self.fns[(r.ty[1], "write")]
+        lean = self.vcall((r.ty[1], "write"), [self.call_args(r)])
+        ex = wr_and(r.ex, lean.replace(f["lean"], f["lean"] + "_exact", 1) if f["has_ex"] else None)
+        return a[1], lean, ex
+
+    def unit_block(self, b):
+        """statements of a block of type `()`: a final `for` / `if` without else is a statement, not a value"""
+        if b[2] is None:
+            return b[1]
+        if b[2][0] == "for" or (b[2][0] in ("if", "iflet") and b[2][-1] is None):
+            return list(b[1]) + [b[2]]
+        self.err("a block of type `()` that ends in a value")
+
+    def early_err(self, st):
+        """`if c { return Err(..); }` -> c"""
+        if st[0] == "if" and st[3] is None and st[2][0] == "block":
+            b = st[2]
+            r = None
+            if len(b[1]) == 1 and b[2] is None:
+                r = b[1][0]
+            elif not b[1] and b[2] is not None:
+                r = b[2]
+            if r is not None and r[0] == "return" and r[1] is not None:
+                v = r[1]
+                while v[0] == "paren":
+                    v = v[1]
+                if v[0] == "call" and v[1] == ("var", "Err") and len(v[2]) == 1:
+                    a = v[2][0]
+                    if not (a[0] == "call" and a[1] == ("path", ["VerifyError", "new"])):
+                        self.err("early return of something other than Err(VerifyError::new(..))")
+                    return st[1]
+                self.err("early return of something other than Err(..)")
+        return None
+
+    def has_try(self, n):
+        if isinstance(n, tuple):
+            return n[:1] == ("try",) or any(self.has_try(x) for x in n)
+        if isinstance(n, list):
+            return any(self.has_try(x) for x in n)
+        return False
+
+    def vseq(self, K, a, rest):
+        if K.kind == "V" and K.state is None and rest == "some true":
+            return a
+        return f"andThen {K.err} {wr_par(a)} <|\n{rest}"
+
+    def vfinish(self, tail, env, K):
+        if tail is None:
+            if K.kind != "V":
+                self.err("a constructor body without a final value")
+            return K.unit()
+        t = tail
+        while t[0] == "paren":
+            t = t[1]
+        if t[0] == "call" and t[1] == ("var", "Ok") and len(t[2]) == 1:
+            if t[2] == [("unit",)]:
+                if K.kind != "V":
+                    self.err("Ok(()) in a constructor")
+                return K.unit()
+            if K.kind != "C":
+                self.err("Ok(value) in a function returning Result<(), _>")
+            tries = []
+
+            def hoist(n):
+                """`f(g(x)?)`: the `?`-expressions are evaluated first, in source order (arguments are evaluated left to
+                right, and nothing else in the accepted subset has an effect)"""
+                if isinstance(n, tuple):
+                    if n[:1] == ("try",):
+                        inner = hoist(n[1])
+                        nm = f"ok_{len(tries)}__"
+                        tries.append((nm, inner))
+                        return ("var", nm)
+                    if n[:1] in (("closure",), ("mexp",), ("block",), ("if",), ("match",), ("iflet",)):
+                        if self.has_try(n):
+                            self.err("`?` inside a closure, block or branch of the returned value")
+                        return n
+                    return tuple(hoist(x) for x in n)
+                if isinstance(n, list):
+                    return [hoist(x) for x in n]
+                return n
+            arg = hoist(t[2][0])
+            if tries:
+                env = dict(env)
+                pre = []
+                for nm, inner in tries:
+                    lean, vty = self.cexpr(inner, env, (None, []))
+                    env[nm] = WrVar(nm, vty)
+                    pre.append(f"bindC {K.err} {wr_par(lean)} fun {nm} =>\n")
+                v = self.tx(arg, env, K.rty)
+                if v.ty != K.rty:
+                    self.err(f"Ok(..) of a {v.ty!r}, the function returns {K.rty!r}")
+                val = self.value_of(v) if isinstance(v.ty, tuple) and v.ty[0] == "st" else v.lean
+                return "".join(pre) + vf_req(v.ex, f"some (some {wr_par(val)})")
+            v = self.tx(t[2][0], env, K.rty)
+            if v.ty != K.rty:
+                self.err(f"Ok(..) of a {v.ty!r}, the function returns {K.rty!r}")
+            val = self.value_of(v) if isinstance(v.ty, tuple) and v.ty[0] == "st" else v.lean
+            return vf_req(v.ex, f"some (some {wr_par(val)})")
+        if K.kind == "V":
+            a = self.vres(t, env)
+            return a if K.state is None else f"andThen {K.err} {wr_par(a)} <|\n{K.unit()}"
+        self.err(f"final expression of kind `{t[0]}` in a constructor")
+
+    # ---- loops
+    def loop_source(self, it, env):
+        """iterator expression of a `for` -> (Lean list, exactness, element type, has_index)"""
+        if it[0] == "range":
+            vals, vex, ety = WrTx.loop_values(self, it, env)
+            # countUp a b 1 over `0..n`
+            return vals, vex, ety, False
+        x = it
+        idx = False
+        if x[0] == "mcall" and x[2] == "enumerate" and not x[3]:
+            idx = True      # std: Iterator::enumerate pairs each element with its position, from 0
+            x = x[1]
+            self.used_readings.add("Iterator::enumerate")
+        if x[0] == "mcall" and x[2] == "zip" and len(x[3]) == 1:
+            a, _, at, ai = self.loop_source(x[1], env)
+            b, _, bt, bi = self.loop_source(x[3][0], env)
+            if ai or bi:
+                self.err("zip of enumerated iterators")
+            self.used_readings.add("Iterator::zip")
+            return f"List.zip {wr_par(a)} {wr_par(b)}", None, ("tuple", (at, bt)), idx
+        v = self.tx(x, env)
+        if not (isinstance(v.ty, tuple) and v.ty[0] == "list"):
+            self.err(f"`for` over a value of type {v.ty!r}")
+        if v.ex is not None:
+            self.err("`for` over a list expression that may panic")
+        return v.lean, None, v.ty[1], idx
+
+    def bind_pat(self, pat, ety, env2):
+        """-> Lean binder for an element of type ety"""
+        if isinstance(pat, str):
+            if pat == "_":
+                return "_"
+            if self.is_view(ety) or (isinstance(ety, tuple) and ety[0] == "st" and ety[1] in WR_MODEL and WR_MODEL[ety[1]]["kind"] == "enum") or True:
+                env2[pat] = WrVar(wr_mangle(pat), ety)
+            return wr_mangle(pat)
+        if pat[0] == "tup":
+            if not (isinstance(ety, tuple) and ety[0] == "tuple" and len(ety[1]) == len(pat[1])):
+                self.err("tuple pattern on elements that are not tuples of that size")
+            return "(" + ", ".join(self.bind_pat(p, t, env2) for p, t in zip(pat[1], ety[1])) + ")"
+        self.err("pattern of `for`")
+
+    def vfor(self, st, env):
+        pat, it, body = st[1], st[2], st[3]
+        body = ("block", self.unit_block(body), None)
+        vals, vex, ety, idx = self.loop_source(it, env)
+        env2 = dict(env)
+        if idx:
+            if not (isinstance(pat, tuple) and pat[0] == "tup" and len(pat[1]) == 2 and isinstance(pat[1][0], str)):
+                self.err("pattern of a `for` over `.enumerate()`")
+            iv = pat[1][0]
+            if iv != "_" and self.mentions(body, iv):
+                b_el = self.bind_pat(pat[1][1], ety, env2)
+                env2[iv] = WrVar(wr_mangle(iv), "usize")
+                binder = f"({b_el}, {wr_mangle(iv)})"
+                vals = f"List.zipIdx {wr_par(vals)}"
+            else:
+                binder = self.bind_pat(pat[1][1], ety, env2)
+        else:
+            binder = self.bind_pat(pat, ety, env2)
+        M = [n for n in self.assigned(("block", body[1], None), set()) if n in env and env[n] is not None]
+        if not M:
+            b = self.vwalk(body[1], 0, None, env2, VfK("V"))
+            return vf_req(vex, f"forV {wr_par(vals)} (fun {binder} =>\n{wr_ind(b, 4)})"), None
+        # the body assigns `let mut` locals of the enclosing block: they are threaded through the iterations
+        for n in M:
+            if not env[n].mut or env[n].lean is None or env[n].ty is None:
+                self.err(f"loop body assigns `{n}`, which is not a typed `let mut` local")
+            env2[n] = WrVar(wr_mangle(n), env[n].ty, None, None, True)
+        names = [wr_mangle(n) for n in M]
+        state = names[0] if len(names) == 1 else "(" + ", ".join(names) + ")"
+        b = self.vwalk(body[1], 0, None, env2, VfK("V", None, state))
+        return vf_req(vex, f"forVS {wr_par(vals)} {state} (fun {binder} {state} =>\n{wr_ind(b, 4)})"), (M, state)
+
+    # ------------------------------------------------------------ functions
+    def vf_function(self, fname, trait, owner, name, kind):
+        items = self.files[fname]
+        table = items.fns if owner is None else items.impls.get((trait, owner))
+        what = f"{fname}: " + (f"impl {(trait + ' for ') if trait else ''}{owner}" if owner else "free functions")
+        if table is None:
+            fail(f"{what} not found")
+        if name not in table:
+            fail(f"{what}: fn {name} not found")
+        rec = table[name]
+        lname = f"{owner}.{name}" if owner else name
+        self.where = f"{fname}: fn {lname}"
+        self.owner = owner
+        self.cur_file = fname
+        self.extra = {}
+        if rec["body"] is None:
+            self.err("no body")
+        if any(a.startswith("#[cfg") for a in rec["attrs"]):
+            self.err("conditionally compiled function")
+        env, lparams, ptys = {}, [], []
+        self_kind = None
+        generic_iters = {}
+        for p in rec["params"]:
+            if p in (["self"], ["&", "self"]) or (kind in ("M", "MV") and p == ["&", "mut", "self"]):
+                if owner is None:
+                    self.err("self parameter in a free function")
+                lp, sv = self.self_value(owner)
+                lparams += lp
+                env["self"] = WrVar(sv.lean, sv.ty, None, sv.view, kind in ("M", "MV"))
+                self_kind = "ctor" if sv.view is not None and WR_MODEL.get(owner, {}).get("kind") == "ctor" else "value"
+                continue
+            if p[:1] == ["mut"] or p[:3] == ["&", "mut", "self"]:
+                self.err("mutable parameter")
+            if len(p) < 3 or p[1] != ":":
+                self.err(f"parameter `{' '.join(p)}`")
+            pn, pt = p[0], p[2:]
+            if len(pt) == 1 and pt[0] in rec["generics"]:
+                ity = self.iterator_bound(rec, pt[0], items)
+                ty = ("list", ity)
+            else:
+                ty = self.ty(pt)
+            if ty == "str":
+                env[pn] = WrVar('""', "str")
+                ptys.append(ty)
+                continue
+            lp, var = self.param_value(pn, ty)
+            lparams += lp
+            env[pn] = var
+            ptys.append(ty)
+        body = VfParser(items.toks, rec["body"][0], rec["body"][1], self.where, self.macros)
+        ast = body.block()
+        if body.p != rec["body"][1]:
+            self.err("trailing tokens after the body")
+        if kind == "M":
+            if rec["ret"]:
+                self.err("a mutator with a return value")
+            text = self.mwalk(ast[1], ast[2], env)
+            rty = "mut"
+            lrty = self.lty(("st", owner))
+        else:
+            if not rec["ret"]:
+                self.err("no return type")
+            rty = self.ty(rec["ret"])
+            if kind == "V":
+                if rty != "vres":
+                    self.err(f"return type {rty!r}, expected Result<(), VerifyError>")
+                K = VfK("V")
+                lrty = "VR"
+            elif kind == "MV":
+                if rty != "vres":
+                    self.err(f"return type {rty!r}, expected Result<(), VerifyError>")
+                if "self" not in env or env["self"].lean != "self":
+                    self.err("a `&mut self` method of a type without a Lean structure")
+                K = VfK("V", None, "self")
+                lrty = f"Option (Bool × {self.lty(('st', owner))})"
+                rty = "mvres"
+            else:
+                if not (isinstance(rty, tuple) and rty[0] == "cres"):
+                    self.err(f"return type {rty!r}, expected Result<_, VerifyError>")
+                K = VfK("C", rty[1])
+                lrty = "CR " + wr_par(self.lty_value(rty[1]))
+            text = self.vwalk(ast[1], 0, ast[2], dict(env), K)
+        extra = list(self.extra.items())
+        sig = " ".join([f"({n} : {ty_})" for n, ty_ in extra] + lparams)
+        self.fns[(owner, name)] = dict(lean=lname, self_kind=self_kind if self_kind == "ctor" else (None if "self" not in env else "value"),
+                                       ptys=ptys, ret=rty, has_ex=False, extra=[n for n, _ in extra], extra_types=extra)
+        L = [f"/-- `{(trait + ' for ') if trait else ''}{owner + '::' if owner else ''}{name}` ({fname}) -/",
+             f"def {lname} {sig} : {lrty} :=".replace("  :", " :"), wr_ind(text), ""]
+        out = self.lines + L
+        self.lines = []
+        return out
+
+    def iterator_bound(self, rec, g, items):
+        """`fn f<I>(x: I) where I: Iterator<Item = T>`: the parameter is read as the list of the items it yields"""
+        t = items.toks
+        lo = rec["body"][0]
+        j = lo
+        while j > 0 and t[j] != "where" and t[j] != "fn":
+            j -= 1
+        w = t[j + 1:lo] if t[j] == "where" else []
+        want = [g, ":", "Iterator", "<", "Item", "="]
+        if w[:6] != want or w[-1:] not in ([">"], [","]) :
+            self.err(f"generic parameter {g}: only `where {g}: Iterator<Item = T>` is understood")
+        inner = w[6:]
+        while inner and inner[-1] == ",":
+            inner = inner[:-1]
+        if not inner or inner[-1] != ">":
+            self.err(f"generic parameter {g}: bound")
+        self.used_readings.add("Iterator (a generic iterator parameter is the list of its items)")
+        return self.ty(inner[:-1])
+
+    def mwalk(self, stmts, tail, env):
+        """body of a `&mut self` method without return value -> Lean term for the new `self`"""
+        seq = list(stmts) + ([tail] if tail is not None else [])
+        out = []
+        for st in seq:
+            if st[0] == "assign" and st[1] == "=" and st[2][0] == "field" and st[2][1] == ("var", "self"):
+                f = st[2][2]
+                if self.owner in WR_MODEL and WR_MODEL[self.owner]["kind"] == "struct":
+                    lf, fty = self.model_field(self.owner, f)
+                else:
+                    lf, fty = wr_mangle(f), self.field_ty(self.owner, f)
+                v = self.tx_as(st[3], env, fty, f"self.{f}")
+                if v.ex is not None:
+                    self.err("a mutator with a step that may panic")
+                val = f"decide {wr_par(v.lean)}" if (fty == "bool" and v.lean not in ("True", "False")) else {"True": "true", "False": "false"}.get(v.lean, v.lean)
+                out.append(f"let self := {{ self with {lf} := {val} }}")
+                continue
+            if st[0] == "mcall" and st[1] == ("var", "self") and (self.owner, st[2]) in self.fns and self.fns[(self.owner, st[2])]["ret"] == "mut":
+                f = self.fns[(self.owner, st[2])]
+                outs = self.typed_args(st[3], f["ptys"], env, f["lean"])
+                if any(x.ex is not None for x in outs):
+                    self.err("a mutator with a step that may panic")
+                out.append(f"let self := {f['lean']} " + " ".join(["self"] + [wr_par(x.lean) for x in outs]))
+                continue
+            if st[0] == "match" and st is seq[-1]:
+                head, rows = self.any_arms(st[1], st[2], env)
+                arms = []
+                for p, env2, b in rows:
+                    if b[0] == "block":
+                        arms.append(f"| {p} =>\n{wr_ind(self.mwalk(b[1], b[2], env2), 4)}")
+                    else:
+                        arms.append(f"| {p} =>\n{wr_ind(self.mwalk([], b, env2), 4)}")
+                out.append(head + "\n".join(arms))
+                return "\n".join(out)
+            self.err(f"statement of kind `{st[0]}` in a mutator")
+        out.append("self")
+        return "\n".join(out)
+
+    def make_parser(self, toks, lo, hi):
+        return VfParser(toks, lo, hi, self.where, self.macros)
+
+    def norm_hdr_ty(self, t):
+        if isinstance(t, tuple) and t[0] == "enum":
+            return ("hdr", t[1])
+        if isinstance(t, tuple) and t[0] == "opt":
+            return ("opt", self.norm_hdr_ty(t[1]))
+        return t
+
+    def hdr_method(self, r, name, args, env):
+        ln = f"{r.ty[1]}.{name}"
+        if ln not in self.hdr or self.hdr[ln][1] == "writes":
+            return None
+        ptys, rty, has_ex = self.hdr[ln]
+        outs = self.typed_args(args, ptys, env, ln)
+        al = " ".join([wr_par(r.lean)] + [wr_par(x.lean) for x in outs])
+        return WV(f"(FlacVerif.Gen.Headers.{ln} {al})", self.norm_hdr_ty(rty),
+                  wr_and(r.ex, *[x.ex for x in outs], f"FlacVerif.Gen.Headers.{ln}_exact {al}" if has_ex else None))
+
+    def probe(self, name, params):
+        """the helper macro `name!` as a function of its expression arguments (one synthetic invocation)"""
+        self.where = f"verify.rs: {name}! (probe)"
+        self.owner = None
+        self.cur_file = "verify.rs"
+        if name not in self.macros.defs or self.macros.defs[name][0] != "verify.rs":
+            fail(f"verify.rs: macro `{name}!` not found")
+        toks = ['"probe"']
+        for pn, _ in params:
+            toks += [",", pn]
+        ps = VfParser(toks, 0, len(toks), self.where, self.macros)
+        e = ps.macro(name, toks)
+        if e[0] != "mexp":
+            self.err("not a macro defined by macro_rules!")
+        exprs = [n for n, b in e[3].items() if b[0] == "expr"]
+        if len(exprs) != len(params):
+            self.err(f"`{name}!` takes the expression arguments {exprs}, the probe table lists {len(params)}")
+        env, lparams = {}, []
+        for pn, pt in params:
+            env[pn] = WrVar(wr_mangle(pn), pt)
+            lparams.append(f"({wr_mangle(pn)} : {self.lty(pt)})")
+        text = self.vres(e[2], env)
+        self.probes[name] = ([pt for _, pt in params], name, exprs)
+        return [f"/-- `{name}!(<name>, {', '.join(f'{pn}: {pt}' for pn, pt in params)})` (verify.rs), expanded -/",
+                f"def {name} {' '.join(lparams)} : VR :=", wr_ind(text), ""]
+
+
+VF_PRELUDE = '''/-- Outcome of an expression of type `Result<(), VerifyError>`: `some true` = `Ok(())`, `some false` = `Err(_)`,
+`none` = evaluation PANICS in the dev profile before a result exists. -/
+abbrev VR := Option Bool
+
+/-- Outcome of an expression of type `Result<T, VerifyError>`: `some (some v)` = `Ok(v)`, `some none` = `Err(_)`,
+`none` = panic. -/
+abbrev CR (α : Type) := Option (Option α)
+
+/-- `a?; rest` and `a.and_then(|()| rest)`; `err` is the `Err` outcome of the enclosing function. -/
+def andThen {β : Type} (err : β) (a : VR) (rest : Option β) : Option β :=
+  match a with | none => none | some false => some err | some true => rest
+
+/-- a step that panics unless `c` holds (overflow, shift amount, index, `assert!`, `.expect()`), then `rest` -/
+def req {β : Type} (c : Bool) (rest : Option β) : Option β := if c then rest else none
+
+/-- `let v = a?; k v` -/
+def bindC {α β : Type} (err : β) (a : CR α) (k : α → Option β) : Option β :=
+  match a with | none => none | some none => some err | some (some v) => k v
+
+/-- `for x in xs { f(x)?; }` -/
+def forV {α : Type} : List α → (α → VR) → VR
+  | [], _ => some true
+  | x :: xs, f => andThen false (f x) (forV xs f)
+
+/-- `for x in xs { f(x, state)?; }` where the body assigns the outer `let mut` variables `state` -/
+def forVS {α σ : Type} : List α → σ → (α → σ → Option (Bool × σ)) → Option (Bool × σ)
+  | [], s, _ => some (true, s)
+  | x :: xs, s, f =>
+    match f x s with
+    | none => none
+    | some (false, s') => some (false, s')
+    | some (true, s') => forVS xs s' f
+
+/-- the statements after such a loop -/
+def bindVS {σ β : Type} (err : β) (r : Option (Bool × σ)) (k : σ → Option β) : Option β :=
+  match r with | none => none | some (false, _) => some err | some (true, s) => k s
+
+/-- `heapless::Vec::<T, cap>::from_slice(xs)` -/
+def fromSlice {α : Type} (cap : Nat) (xs : List α) : CR (List α) := if xs.length ≤ cap then some (some xs) else some none
+
+/-- `x.write(&mut dest).map_err(|_| VerifyError::new(..))?; k` for a fresh local `MemSink` `dest`: `w` = the operations
+`write` issues (`none` = `write` itself returns `Err`; a `MemSink` never fails) -/
+def bindOps {β : Type} (err : β) (w : Option (List FlacVerif.Op)) (k : List FlacVerif.Op → Option β) : Option β :=
+  match w with | none => some err | some ops => k ops
+
+/-- `<unsigned of bits bits>::try_from(v)` -/
+def tryIntoC (bits v : Nat) : CR Nat := if v < 2 ^ bits then some (some v) else some none
+
+/-- no step of `xs.iter().fold(init, f)` panics (`ex acc x` = the step `f acc x` does not) -/
+def foldOk {α β : Type} (f : β → α → β) (ex : β → α → Bool) : β → List α → Bool
+  | _, [] => true
+  | acc, x :: xs => ex acc x && foldOk f ex (f acc x) xs
+'''
+
+
+def emit_verify(cinfo):
+    comp = os.path.join(REPO, "src", "component")
+    paths = {"verify.rs": os.path.join(comp, "verify.rs"), "datatype.rs": os.path.join(comp, "datatype.rs"),
+             "error.rs": os.path.join(REPO, "src", "error.rs"), "bitrepr.rs": os.path.join(comp, "bitrepr.rs")}
+    files = {}
+    for fn, path in paths.items():
+        if not os.path.exists(path):
+            fail(f"{fn}: file not found")
+        files[fn] = HdrItems(fn, hdr_lex(open(path).read(), fn))
+    vr, dt = files["verify.rs"], files["datatype.rs"]
+    if not HDR_DONE:
+        fail("verify.rs: part `headers` did not run (Gen/Verify.lean uses Gen/Headers.lean)")
+    impls = sorted(o for (tr, o) in vr.impls if tr == "Verify")
+    if impls != sorted(VF_VERIFY_IMPLS):
+        fail(f"verify.rs: the types implementing Verify are {impls}, expected {sorted(VF_VERIFY_IMPLS)}")
+    for o in VF_VERIFY_IMPLS:
+        if sorted(vr.impls[("Verify", o)]) != ["verify"]:
+            fail(f"verify.rs: impl Verify for {o} defines {sorted(vr.impls[('Verify', o)])}, expected ['verify']")
+    macros = VfMacros()
+    macros.load("verify.rs", vr.toks)
+    macros.load("error.rs", files["error.rs"].toks)
+    gen_defs = wr_scan_types(dt, set(WR_GENERATED) | {"SubFrame"} | set(VF_GENERATED))
+    tx = VfTx(files, gen_defs, dict(HDR_DONE), dt.enums, macros, cinfo, set())
+    tx.parse_gen_types()
+    for n in VF_GENERATED:
+        if n not in gen_defs or gen_defs[n][0] != "enum":
+            fail(f"datatype.rs: enum {n} not found")
+        tx.where = f"datatype.rs: enum {n}"
+        vs = []
+        for v, vk, payload in gen_defs[n][1]:
+            if vk == "unit":
+                vs.append((v, vk, []))
+            elif vk == "tuple":
+                vs.append((v, vk, [(f"a{i}", tx.ty(p)) for i, p in enumerate(payload)]))
+            else:
+                vs.append((v, vk, [(f, tx.ty(t)) for f, t in payload]))
+        tx.gen[n] = ("enum", vs)
+    structs = wr_scan_types(dt, {T for T, info in WR_MODEL.items() if info["kind"] in ("struct", "ctor", "part")})
+    for T, (kind, fields) in structs.items():
+        if kind == "struct":
+            tx.struct_defs[T] = fields
+    for fn in files:
+        tx.load_aliases(fn)
+    if not WR_DONE:
+        fail("verify.rs: part `writer` did not run (Gen/Verify.lean uses Gen/Writer.lean)")
+    for (o, n), f in WR_DONE.items():
+        # `count_bits` / `write` of part `writer`: referred to by name, with their uninterpreted parameters
+        if o is not None and n in ("count_bits", "write"):
+            g = dict(f)
+            g["lean"] = "FlacVerif.Gen.Writer." + f["lean"]
+            tx.fns[(o, n)] = g
+    body = []
+    done_probes = False
+    for fname, trait, owner, name, kind in VF_SPEC:
+        L = tx.vf_function(fname, trait, owner, name, kind)
+        if fname == "error.rs":
+            tx.fns[(None, name)]["path"] = ["crate", "error", name]
+        body += L
+        if not done_probes and fname == "error.rs":
+            done_probes = True
+            for mname, params in VF_PROBES:
+                body += tx.probe(mname, params)
+    L = ["-- GENERATED by tools/translate.py (part `verify`) from src/component/verify.rs, src/component/datatype.rs and src/error.rs — do not edit",
+         "/-",
+         "Statement-by-statement mirror of the `impl Verify for X` bodies, of the helper macros they use (expanded from",
+         "their `macro_rules!` definitions, nothing about them is built into the translator) and of the public constructors.",
+         "",
+         "`X.verify v : VR` (`Option Bool`): `some true` = `Ok(())`, `some false` = `Err(_)`, `none` = the Rust function panics in the",
+         "dev profile before it returns.  `X.new args : CR T` (`Option (Option T)`): `some (some v)` = `Ok(v)`, `some none` = `Err(_)`,",
+         "`none` = panic.  `a?; rest` / `a.and_then(|()| rest)` = `andThen`, in program order; `for` = `forV` over the same list /",
+         "range; `req c` = a step that panics unless `c` (the conditions are derived as in part `writer`: `a + b < 2^w`, `b ≤ a`",
+         "for `a - b`, shift amount `< w`, index `< length`, ...).  Error values, messages and `.map_err(..)` are dropped.",
+         "",
+         "Integers are modelled on `Nat` / `Int`; `e as T` to a narrower unsigned `T` is `e % 2^bits(T)`, to a signed `T` it is",
+         f"`Int.bmod e 2^bits(T)`; usize is taken as {HDR_BITS['usize']} bits.  The domains of the inputs (u8 < 256, ...) are NOT built in:",
+         "theorems carry them as hypotheses.  Constants of constant.rs are referred to by name (`FlacVerif.Gen.Const.*`,",
+         "part `constants`), never by value.",
+         "",
+         "Component values are those of part `writer`: the hand-written model's structures for StreamInfo, Residual and the four",
+         "subframe kinds (through the accessor table WR_MODEL), `FlacVerif.QParams` for a `QuantizedParameters` value, the",
+         "structures generated into Gen/Writer.lean for FrameHeader, Frame, MetadataBlock(Data), Stream, the enums of",
+         "Gen/Headers.lean; `FrameOffset` is generated below.",
+         "-/",
+         "import FlacVerif.Model.Verify",
+         "import FlacVerif.Gen.Constants",
+         "import FlacVerif.Gen.Headers",
+         "import FlacVerif.Gen.Writer",
+         "set_option linter.unusedVariables false",
+         "namespace FlacVerif.Gen.Verify",
+         "open FlacVerif.Gen.Writer (andB andE bindE bindEE loopE countUp)", "", VF_PRELUDE]
+    for lt in tx.need_inhabited:
+        L.append(f"deriving instance Inhabited for {lt}")
+    if tx.need_inhabited:
+        L.append("")
+    for n in VF_GENERATED:
+        kind, d = tx.gen[n]
+        L.append(f"/-- `enum {n}` (datatype.rs) -/")
+        L.append(f"inductive {n} where")
+        for v, vk, fields in d:
+            L.append(f"  | {v} " + " ".join(f"({wr_mangle(f)} : {tx.lty(ty)})" for f, ty in fields))
+        L.append("  deriving Repr, DecidableEq")
+        L.append("")
+    L += body
+    L.append("/- NOT translated by this part:")
+    for (o, n), why in VF_UNTRANSLATED.items():
+        L.append(f"   {(o + '::') if o else ''}{n} — {why}")
+    L.append("")
+    L.append("   Helper methods translated on demand (pure functions, with `_exact`): " + (", ".join(f"{o}::{n}" for o, n in tx.on_demand) or "none"))
+    L.append("   Trusted tables of this part (besides WR_MODEL, reproduced at the end of Gen/Writer.lean):")
+    for (T, f), ent in VF_CTORS.items():
+        L.append(f"     {T}::{f}({', '.join(ent['params'])})  [body compared with datatype.rs]  ->  "
+                 + ", ".join(f"{k} := {v}" for k, v in ent["fields"].items()) + f"; panics unless {ent['ex']}")
+    for T, (lt, fs) in VF_PART.items():
+        L.append(f"     a {T} value = {lt}.mk {' '.join(fs)}")
+    L.append("   Readings of std / heapless functions used: " + ", ".join(sorted(tx.used_readings)))
+    L.append("   Accessors used (each compared with its body in datatype.rs): " + ", ".join(f"{T}::{m}" for T, m in sorted(tx.checked_acc)))
+    L.append("-/")
+    L += ["", "end FlacVerif.Gen.Verify", ""]
+    return "\n".join(L)
+
+
 def main():
     """Each generated file is produced independently, so that a source file the translator cannot read
     breaks only the properties whose theorems are stated against that file. Status per part is written
@@ -5118,6 +7648,16 @@ def main():
         status["writer"] = f"translator cannot read {e}"
     except Exception as e:  # fail closed on anything the parser did not anticipate
         status["writer"] = f"translator cannot read bitrepr.rs: internal error {type(e).__name__}: {e}"
+    try:
+        for dep in ("constants", "headers", "writer"):
+            if status[dep] != "ok":
+                fail(f"verify.rs: part `{dep}` failed (Gen/Verify.lean imports its output)")
+        write("Verify.lean", emit_verify((order, consts, values)))
+        status["verify"] = "ok"
+    except Unreadable as e:
+        status["verify"] = f"translator cannot read {e}"
+    except Exception as e:  # fail closed on anything the parser did not anticipate
+        status["verify"] = f"translator cannot read verify.rs/datatype.rs: internal error {type(e).__name__}: {e}"
     os.makedirs(os.path.join(ROOT, ".cache"), exist_ok=True)
     json.dump(status, open(os.path.join(ROOT, ".cache", "translate_status.json"), "w"), indent=1)
     bad = [v for v in status.values() if v != "ok"]
